@@ -10,6 +10,16 @@ C38-EXC    decision table of AdjustDefByDirectives.visit_DefNode over the comple
            explicit @exceptval, the exception clause handed over has check=True (`except *` / `except? -1`), and an explicit @exceptval is passed through
            unchanged and flagged as explicit.  Interpreted pure-mode functions always propagate exceptions; a compiled C function without an
            exception check prints "Exception ignored" and returns 0.
+C38-TRUNC  the bodies of Shadow.cdiv / cmod, interpreted by the checker (IntEval), equal the C99 truncating quotient / remainder on every sign x residue class
+           of the dividend for the divisors +-{1,2,3,5,7}.
+C38-EXIT   no __exit__ of a Shadow class returns a true value while an exception is in flight (three-valued ExitEval).
+C38-KIND   the builtin at the end of the typedef() chain of each Shadow C-type name is the Python type the compiler converts that C type to.
+C38-PRANGE Shadow prange() returns range(start, stop, step) with the positional arguments in the slots ParallelRangeNode.analyse_declarations uses.
+C38-COP    cdiv / cmod / cast are compiled to binop `/` / `%` with cdivision=True on (arg0, arg1) / TypecastNode(type of arg0, operand arg1); ccall -> overridable=True,
+           cfunc -> overridable=False; as_cfunction unpacks the exceptval pair in the order its writers build it.
+C38-SHAPE  every directive spelling the compiler accepts (world evaluation of try_to_parse_directives / try_to_parse_directive / visit_WithStatNode per directive type x
+           argument shape) binds to the shadow object and gives the decorated object / a context manager back (abstract call evaluator ShEval).
+           rule_shape_all_forms (every accepted spelling, not only one) reports on the unmodified tree: pending finding, not registered.
 """
 import ast
 
@@ -252,8 +262,12 @@ def as_cfunction_default(ctx):
 
 def exc_table(ctx, fn, params, cls_name='AdjustDefByDirectives'):
     """-> [(world, [(returns, except_val, explicit flag, call node)] one per path that reaches as_cfunction)]"""
+    memo_key = ('C38-exc-table', id(fn), tuple(params), cls_name)
+    if memo_key in ctx._cache:
+        return ctx._cache[memo_key]
     E, R, A = Sym('exceptval-directive-value'), Sym('returns-directive-type'), Sym('return-annotation')
     out = []
+    ctx._cache[memo_key] = out
     for w in exc_worlds():
         table = {'exceptval': E if w['exceptval'] else None, 'returns': R if w['returns'] else None, 'annotation_typing': w['annotation_typing']}
         present = {'cfunc': w['kind'] == 'cfunc', 'ccall': w['kind'] == 'ccall', 'exceptval': w['exceptval'], 'returns': w['returns'], 'annotation_typing': True}
@@ -299,7 +313,7 @@ def exc_table(ctx, fn, params, cls_name='AdjustDefByDirectives'):
             if len(calls) > 1:
                 raise AnalysisError('%s.%s calls as_cfunction more than once on a path' % (cls_name, fn.name))
             kw = calls[0][1]
-            rows.append((kw.get('returns'), kw.get('except_val'), kw.get('has_explicit_exc_clause', False), calls[0][2]))
+            rows.append((kw.get('returns'), kw.get('except_val'), kw.get('has_explicit_exc_clause', False), calls[0][2], kw))
         out.append((w, rows, (E, R, A)))
     return out
 
@@ -310,7 +324,7 @@ def exc_problems(ctx, fn, params, default):
         key = 'exc:%s:%s%s%s%s' % (w['kind'], 'E' if w['exceptval'] else '-', 'R' if w['returns'] else '-', 'T' if w['annotation_typing'] else '-', 'A' if w['annotation'] else '-')
         if not rows:
             raise AnalysisError('AdjustDefByDirectives.%s: no path reaches as_cfunction for %s' % (fn.name, name))
-        for returns, ev, explicit, call in rows:
+        for returns, ev, explicit, call, _kw in rows:
             if returns is UNK or ev is UNK or explicit is UNK:
                 raise AnalysisError('AdjustDefByDirectives.%s: cannot evaluate the arguments of as_cfunction for %s (returns=%r except_val=%r explicit=%r)'
                                     % (fn.name, name, returns, ev, explicit))
@@ -368,3 +382,2333 @@ def rule_exc(ctx):
     bad = sorted({k for k, _, msg, _, _, _ in exc_problems(ctx, pc, params, default) if msg})
     r.positive_control(bad == ['exc:ccall:--TA', 'exc:cfunc:--TA'], 'default computed before the annotation is looked at')
     return r
+
+
+# ================================================================================================ C38-TRUNC
+# Value clause of the integer emulations: the BODY of Shadow.cdiv / Shadow.cmod is interpreted by the evaluator below (Python integer semantics, it
+# belongs to the checker; nothing of the repository is executed) on the complete set of sign combinations x residue classes of the dividend modulo
+# |divisor| for five small divisors, and compared with the C99 definition (6.5.5: the quotient is truncated toward zero, (a/b)*b + a%b == a).
+# What makes the finite evaluation representative is established syntactically first (`outside_fragment`): the function looks at its operands only
+# through + - * // % abs divmod and comparisons, so its behaviour is piecewise determined by the signs of the operands and the residue of a modulo |b|.
+# A counterexample is always a genuine one; the transfer of a *pass* to large operands is not decided (NOT_DECIDED).
+C_MEANING = {'cdiv': '/', 'cmod': '%'}     # fixed by the meaning of the names: the C operators `/` and `%` on signed integers
+TRUNC_DIVISORS = (1, 2, 3, 5, 7)
+FRAGMENT_OPS = (ast.Add, ast.Sub, ast.Mult, ast.FloorDiv, ast.Mod)
+FRAGMENT_CALLS = {'abs', 'divmod', 'int', 'bool'}
+
+
+class _Unsupported(Exception):
+    def __init__(self, node, why=''):
+        Exception.__init__(self, '%s%s' % (node_src(node, 50) if isinstance(node, ast.AST) else node, why and ' (%s)' % why))
+
+
+class _Raises(Exception):
+    """The interpreted function raises (ZeroDivisionError, failed assert, explicit raise)."""
+
+
+class IntEval:
+    """Concrete interpreter for straight-line / branching arithmetic functions over Python numbers."""
+    BIN = {ast.Add: lambda a, b: a + b, ast.Sub: lambda a, b: a - b, ast.Mult: lambda a, b: a * b, ast.FloorDiv: lambda a, b: a // b,
+           ast.Mod: lambda a, b: a % b, ast.Div: lambda a, b: a / b, ast.Pow: lambda a, b: a ** b, ast.LShift: lambda a, b: a << b,
+           ast.RShift: lambda a, b: a >> b, ast.BitAnd: lambda a, b: a & b, ast.BitOr: lambda a, b: a | b, ast.BitXor: lambda a, b: a ^ b}
+    CMP = {ast.Lt: lambda a, b: a < b, ast.LtE: lambda a, b: a <= b, ast.Gt: lambda a, b: a > b, ast.GtE: lambda a, b: a >= b,
+           ast.Eq: lambda a, b: a == b, ast.NotEq: lambda a, b: a != b, ast.Is: lambda a, b: a is b, ast.IsNot: lambda a, b: a is not b}
+    NUM = (int, float, bool)
+
+    def __init__(self, fn, budget=400):
+        self.fn, self.budget = fn, budget
+
+    def call(self, *args):
+        a = self.fn.args
+        if a.vararg or a.kwarg or a.kwonlyargs:
+            raise _Unsupported(self.fn.name, 'star parameters')
+        params = [p.arg for p in a.posonlyargs + a.args]
+        if len(params) != len(args):
+            raise _Unsupported(self.fn.name, 'takes %d parameters' % len(params))
+        env = dict(zip(params, args))
+        self.steps = 0
+        flow, val = self.block(self.fn.body, env)
+        return val if flow == 'return' else None
+
+    def tick(self, n):
+        self.steps += 1
+        if self.steps > self.budget:
+            raise _Unsupported(n, 'step budget exhausted')
+
+    def block(self, stmts, env):
+        for s in stmts:
+            flow, val = self.stmt(s, env)
+            if flow != 'next':
+                return flow, val
+        return 'next', None
+
+    def store(self, t, v, env):
+        if isinstance(t, ast.Name):
+            env[t.id] = v
+        elif isinstance(t, (ast.Tuple, ast.List)) and isinstance(v, tuple) and len(v) == len(t.elts) and not any(isinstance(e, ast.Starred) for e in t.elts):
+            for e, x in zip(t.elts, v):
+                self.store(e, x, env)
+        else:
+            raise _Unsupported(t, 'assignment target')
+
+    def stmt(self, s, env):
+        self.tick(s)
+        if isinstance(s, ast.Assign):
+            v = self.ev(s.value, env)
+            for t in s.targets:
+                self.store(t, v, env)
+        elif isinstance(s, ast.AnnAssign):
+            if s.value is not None:
+                self.store(s.target, self.ev(s.value, env), env)
+        elif isinstance(s, ast.AugAssign):
+            if not isinstance(s.target, ast.Name):
+                raise _Unsupported(s, 'augmented assignment target')
+            env[s.target.id] = self.binop(s.op, self.ev(ast.Name(id=s.target.id, ctx=ast.Load()), env), self.ev(s.value, env), s)
+        elif isinstance(s, ast.If):
+            return self.block(s.body if self.ev(s.test, env) else s.orelse, env)
+        elif isinstance(s, ast.While):
+            while self.ev(s.test, env):
+                self.tick(s)
+                flow, val = self.block(s.body, env)
+                if flow == 'break':
+                    break
+                if flow == 'return':
+                    return flow, val
+            else:
+                return self.block(s.orelse, env)
+        elif isinstance(s, ast.Return):
+            return 'return', (self.ev(s.value, env) if s.value is not None else None)
+        elif isinstance(s, ast.Expr):
+            if not isinstance(s.value, ast.Constant):
+                self.ev(s.value, env)
+        elif isinstance(s, ast.Assert):
+            if not self.ev(s.test, env):
+                raise _Raises('assert %s' % node_src(s.test, 40))
+        elif isinstance(s, ast.Raise):
+            raise _Raises(node_src(s, 40))
+        elif isinstance(s, ast.Break):
+            return 'break', None
+        elif isinstance(s, ast.Continue):
+            return 'continue', None
+        elif isinstance(s, ast.Pass):
+            pass
+        else:
+            raise _Unsupported(s, 'statement')
+        return 'next', None
+
+    def binop(self, op, a, b, n):
+        f = self.BIN.get(type(op))
+        if f is None or not isinstance(a, self.NUM) or not isinstance(b, self.NUM):
+            raise _Unsupported(n, 'operator')
+        if isinstance(op, (ast.Pow, ast.LShift)) and (abs(b) > 64 or abs(a) > 10 ** 6):
+            raise _Unsupported(n, 'operand too large')
+        try:
+            return f(a, b)
+        except ZeroDivisionError:
+            raise _Raises('ZeroDivisionError in %s' % node_src(n, 40))
+        except (TypeError, ValueError, OverflowError):
+            raise _Unsupported(n, 'operator on these operand types')
+
+    def ev(self, n, env):
+        self.tick(n)
+        if isinstance(n, ast.Constant):
+            if isinstance(n.value, self.NUM) or n.value is None:
+                return n.value
+            raise _Unsupported(n, 'constant')
+        if isinstance(n, ast.Name):
+            if n.id in env:
+                return env[n.id]
+            raise _Unsupported(n, 'free name')
+        if isinstance(n, ast.BinOp):
+            return self.binop(n.op, self.ev(n.left, env), self.ev(n.right, env), n)
+        if isinstance(n, ast.UnaryOp):
+            v = self.ev(n.operand, env)
+            if isinstance(n.op, ast.Not):
+                return not v
+            if not isinstance(v, self.NUM):
+                raise _Unsupported(n, 'operand')
+            if isinstance(n.op, ast.USub):
+                return -v
+            if isinstance(n.op, ast.UAdd):
+                return +v
+            if isinstance(n.op, ast.Invert) and isinstance(v, int):
+                return ~v
+            raise _Unsupported(n, 'operator')
+        if isinstance(n, ast.Compare):
+            left = self.ev(n.left, env)
+            for op, c in zip(n.ops, n.comparators):
+                right = self.ev(c, env)
+                f = self.CMP.get(type(op))
+                if f is None:
+                    raise _Unsupported(n, 'comparison')
+                try:
+                    if not f(left, right):
+                        return False
+                except TypeError:
+                    raise _Unsupported(n, 'comparison of these operand types')
+                left = right
+            return True
+        if isinstance(n, ast.BoolOp):
+            v = None
+            for x in n.values:
+                v = self.ev(x, env)
+                if bool(v) != isinstance(n.op, ast.And):
+                    return v
+            return v
+        if isinstance(n, ast.IfExp):
+            return self.ev(n.body if self.ev(n.test, env) else n.orelse, env)
+        if isinstance(n, ast.Tuple):
+            return tuple(self.ev(e, env) for e in n.elts)
+        if isinstance(n, ast.NamedExpr) and isinstance(n.target, ast.Name):
+            env[n.target.id] = self.ev(n.value, env)
+            return env[n.target.id]
+        if isinstance(n, ast.Subscript):
+            b, i = self.ev(n.value, env), self.ev(n.slice, env)
+            if isinstance(b, tuple) and isinstance(i, int) and -len(b) <= i < len(b):
+                return b[i]
+            raise _Unsupported(n, 'subscript')
+        if isinstance(n, ast.Call) and not n.keywords:
+            name = n.func.id if isinstance(n.func, ast.Name) and n.func.id not in env else \
+                n.func.attr if isinstance(n.func, ast.Attribute) and isinstance(n.func.value, ast.Name) and n.func.value.id == 'math' else None
+            args = [self.ev(a, env) for a in n.args]
+            if not all(isinstance(a, self.NUM) for a in args):
+                raise _Unsupported(n, 'call argument')
+            try:
+                if isinstance(n.func, ast.Name):
+                    if name in ('abs', 'int', 'bool', 'float', 'round') and len(args) == 1:
+                        return {'abs': abs, 'int': int, 'bool': bool, 'float': float, 'round': round}[name](args[0])
+                    if name == 'divmod' and len(args) == 2:
+                        return divmod(args[0], args[1])
+                    if name in ('min', 'max') and len(args) >= 2:
+                        return (min if name == 'min' else max)(args)
+                elif name in ('floor', 'ceil', 'trunc', 'fmod', 'copysign', 'fabs'):
+                    import math
+                    return getattr(math, name)(*args)
+            except ZeroDivisionError:
+                raise _Raises('ZeroDivisionError in %s' % node_src(n, 40))
+            except (TypeError, ValueError, OverflowError):
+                raise _Unsupported(n, 'call on these operand types')
+            raise _Unsupported(n, 'call')
+        raise _Unsupported(n, 'expression')
+
+
+def c99(op, a, b):
+    """C99 6.5.5 on mathematical integers (no wrap-around: operands stay in range)."""
+    q = abs(a) // abs(b)
+    if (a < 0) != (b < 0):
+        q = -q
+    return q if op == '/' else a - q * b
+
+
+def outside_fragment(fn):
+    """Constructs of fn outside the sign/residue fragment (operands inspected only through + - * // % unary minus abs divmod and comparisons,
+    no loops): for these the finite evaluation is still a sound counterexample search but not representative."""
+    out = []
+    for n in walk_no_nested(fn):
+        if isinstance(n, ast.BinOp) and not isinstance(n.op, FRAGMENT_OPS):
+            out.append('operator %s' % type(n.op).__name__)
+        elif isinstance(n, ast.UnaryOp) and isinstance(n.op, ast.Invert):
+            out.append('operator ~')
+        elif isinstance(n, ast.Call) and not (isinstance(n.func, ast.Name) and n.func.id in FRAGMENT_CALLS):
+            out.append('call %s' % node_src(n.func, 30))
+        elif isinstance(n, (ast.While, ast.For, ast.Try, ast.With, ast.Lambda, ast.ListComp, ast.GeneratorExp)):
+            out.append(type(n).__name__)
+        elif isinstance(n, ast.Constant) and isinstance(n.value, float):
+            out.append('float constant')
+    return sorted(set(out))
+
+
+def trunc_domain():
+    for m in TRUNC_DIVISORS:
+        for b in (m, -m):
+            for a in range(-(3 * m + 2), 3 * m + 3):
+                yield a, b
+
+
+def trunc_problems(fn, op):
+    """-> (number of points evaluated, [(a, b, got, want)], unsupported reason or None)"""
+    ev = IntEval(fn)
+    bad, n = [], 0
+    for a, b in trunc_domain():
+        want = c99(op, a, b)
+        try:
+            got = ev.call(a, b)
+        except _Raises as e:
+            got = 'raises %s' % e
+        except _Unsupported as e:
+            return n, bad, str(e)
+        except RecursionError:
+            return n, bad, 'expression too deep'
+        n += 1
+        if isinstance(got, bool) or not isinstance(got, (int, float)) or got != want:
+            bad.append((a, b, got, want))
+    return n, bad, None
+
+
+def module_functions(tree):
+    last = {}
+
+    def scan(stmts):
+        for s in stmts:
+            if isinstance(s, ast.FunctionDef):
+                last[s.name] = s
+            elif isinstance(s, ast.If):
+                if not (isinstance(s.test, ast.Name) and s.test.id == 'TYPE_CHECKING'):
+                    scan(s.body)
+                scan(s.orelse)
+            elif isinstance(s, ast.Try):
+                scan(s.body)
+    scan(tree.body)
+    return last
+
+
+def rule_trunc(ctx):
+    r = Rule('C38-TRUNC', 'Shadow.cdiv / Shadow.cmod compute the C99 truncating quotient / remainder: the function body is evaluated by the checker on every sign '
+             'combination x residue class of the dividend for the divisors +-{1,2,3,5,7} and compared with the C definition', floor=2)
+    fns = module_functions(ctx.parse(SHADOW))
+    contract = {f.name for f in int_contract_functions(ctx.parse(SHADOW))}
+    for name, op in sorted(C_MEANING.items()):
+        key = 'Shadow.%s:value' % name
+        fn = fns.get(name)
+        if fn is None:
+            r.inst(key, sample='Shadow.%s missing' % name)
+            r.violate(key, SHADOW, 1, 'Shadow.py defines no function %s: `cython.%s(a, b)` (compiled to the C operator `%s`) raises AttributeError when run uncompiled' % (name, name, op))
+            continue
+        npts, bad, unsupported = trunc_problems(fn, op)
+        r.inst(key, sample='Shadow.%s vs C `%s`: %d operand pairs evaluated, %d differ' % (name, op, npts, len(bad)))
+        out = outside_fragment(fn)
+        if unsupported is not None:
+            r.info('Shadow.%s: the checker cannot interpret `%s`; the value clause is not decided for this function (C38-EXACT still applies)' % (name, unsupported))
+            continue
+        if out:
+            r.info('Shadow.%s uses %s: outside the sign/residue fragment, the finite evaluation is a counterexample search only' % (name, ', '.join(out)))
+        if name not in contract:
+            r.info('Shadow.%s no longer has an all-int signature (not an instance of C38-EXACT)' % name)
+        if bad:
+            a, b, got, want = bad[0]
+            r.violate(key, SHADOW, fn.lineno,
+                      'Shadow.%s(%d, %d) evaluates to %s, the compiled module computes the C operation %d %s %d = %d (C99: the quotient is truncated toward zero '
+                      'and the remainder has the sign of the dividend); %d of %d sign/residue cases differ, e.g. %s: a pure-mode module using cython.%s gives '
+                      'different results interpreted and compiled'
+                      % (name, a, b, got, a, op, b, want, len(bad), npts, ', '.join('%s(%d, %d) = %s not %d' % (name, x, y, g, w) for x, y, g, w in bad[1:4]) or 'this one', name))
+    floor_div = ast.parse("def cdiv(a: int, b: int) -> int:\n    return a // b\n").body[0]
+    good_mod = ast.parse("def cmod(a, b):\n    q, r = divmod(abs(a), abs(b))\n    return -r if a < 0 else r\n").body[0]
+    r.positive_control(len(trunc_problems(floor_div, '/')[1]) > 0 and trunc_problems(good_mod, '%')[1:] == ([], None) and c99('/', -7, 2) == -3 and c99('%', -7, 2) == -1
+                       and c99('%', 7, -2) == 1, 'a cdiv that floors (Python //) instead of truncating')
+    return r
+
+
+# ================================================================================================ C38-EXIT
+# No context manager of the shadow module swallows exceptions: the compiled `with nogil:` / `with cython.critical_section(o):` / `with cython.boundscheck(False):`
+# blocks are plain C blocks, an exception raised inside propagates.  `__exit__` is evaluated in the world "an exception is in flight": its three arguments are
+# objects that are not None and true.  Three-valued: a return value whose truth is known and true is the violation; unknown (delegation to another object's
+# __exit__, isinstance tests on the exception) is reported as info.
+class _Live:
+    """An argument of __exit__ while an exception propagates: not None, true."""
+    def __repr__(self):
+        return '<exception info>'
+
+
+T_UNKNOWN = 'unknown'
+
+
+def shadow_classes(tree):
+    """Every ClassDef that is executed at run time (module level, nested in classes / functions / non-TYPE_CHECKING branches) with its dotted name."""
+    out = []
+
+    def scan(stmts, prefix):
+        for s in stmts:
+            if isinstance(s, ast.ClassDef):
+                out.append((prefix + s.name, s))
+                scan(s.body, prefix + s.name + '.')
+            elif isinstance(s, (ast.FunctionDef, ast.AsyncFunctionDef)):
+                scan(s.body, prefix + s.name + '.')
+            elif isinstance(s, ast.If):
+                if not (isinstance(s.test, ast.Name) and s.test.id == 'TYPE_CHECKING'):
+                    scan(s.body, prefix)
+                scan(s.orelse, prefix)
+            elif isinstance(s, (ast.Try, ast.With, ast.For, ast.While)):
+                for part in ('body', 'orelse', 'finalbody'):
+                    scan(getattr(s, part, []) or [], prefix)
+                for h in getattr(s, 'handlers', []):
+                    scan(h.body, prefix)
+    scan(tree.body, '')
+    return out
+
+
+class ExitEval:
+    """Paths of an __exit__ method while an exception is in flight -> [(truth of the returned value: True/False/T_UNKNOWN, node)]"""
+
+    def __init__(self, fn):
+        self.fn = fn
+        a = fn.args
+        params = [p.arg for p in a.posonlyargs + a.args]
+        self.env = {p: _Live() for p in params[1:]}
+        self.self_name = params[0] if params else None
+        if a.vararg:
+            self.env[a.vararg.arg] = T_UNKNOWN if len(params) >= 4 else (_Live(),) * (4 - len(params))
+        self.results = []
+
+    def run(self):
+        for env in self.block(self.fn.body, [dict(self.env)]):
+            self.results.append((False, self.fn))          # falls off the end: returns None
+        return self.results
+
+    def val(self, n, env):
+        """-> python value (None/bool/int/str/_Live/tuple) or T_UNKNOWN"""
+        if isinstance(n, ast.Constant):
+            return n.value if isinstance(n.value, (bool, int, str, type(None))) else T_UNKNOWN
+        if isinstance(n, ast.Name):
+            return env.get(n.id, T_UNKNOWN)
+        if isinstance(n, ast.Tuple):
+            return tuple(self.val(e, env) for e in n.elts)
+        if isinstance(n, ast.Subscript):
+            b, i = self.val(n.value, env), self.val(n.slice, env)
+            if isinstance(b, tuple) and isinstance(i, int) and not isinstance(i, bool) and -len(b) <= i < len(b):
+                return b[i]
+            return T_UNKNOWN
+        if isinstance(n, ast.IfExp):
+            t = self.truth(n.test, env)
+            if t is T_UNKNOWN:
+                a, b = self.val(n.body, env), self.val(n.orelse, env)
+                ta, tb = self.truth_of(a), self.truth_of(b)
+                return ta if ta == tb and ta is not T_UNKNOWN else T_UNKNOWN
+            return self.val(n.body if t else n.orelse, env)
+        if isinstance(n, ast.BoolOp):
+            v = T_UNKNOWN
+            for x in n.values:
+                v = self.val(x, env)
+                t = self.truth_of(v)
+                if t is T_UNKNOWN:
+                    whole = self.truth(n, env)
+                    return whole
+                if t != isinstance(n.op, ast.And):
+                    return v
+            return v
+        if isinstance(n, (ast.UnaryOp, ast.Compare)):
+            return self.truth(n, env)
+        if isinstance(n, ast.Call) and isinstance(n.func, ast.Name) and n.func.id == 'bool' and len(n.args) == 1 and not n.keywords:
+            return self.truth(n.args[0], env)
+        if isinstance(n, ast.NamedExpr) and isinstance(n.target, ast.Name):
+            env[n.target.id] = self.val(n.value, env)
+            return env[n.target.id]
+        return T_UNKNOWN
+
+    @staticmethod
+    def truth_of(v):
+        if v is T_UNKNOWN:
+            return T_UNKNOWN
+        if isinstance(v, _Live):
+            return True
+        if isinstance(v, tuple):
+            return len(v) > 0
+        return bool(v)
+
+    def truth(self, n, env):
+        if isinstance(n, ast.UnaryOp) and isinstance(n.op, ast.Not):
+            t = self.truth(n.operand, env)
+            return T_UNKNOWN if t is T_UNKNOWN else (not t)
+        if isinstance(n, ast.BoolOp):
+            ts = [self.truth(v, env) for v in n.values]
+            if isinstance(n.op, ast.And):
+                return False if any(t is False for t in ts) else True if all(t is True for t in ts) else T_UNKNOWN
+            return True if any(t is True for t in ts) else False if all(t is False for t in ts) else T_UNKNOWN
+        if isinstance(n, ast.Compare):
+            left = self.val(n.left, env)
+            res = True
+            for op, c in zip(n.ops, n.comparators):
+                right = self.val(c, env)
+                t = self.compare(op, left, right)
+                if t is T_UNKNOWN:
+                    return T_UNKNOWN
+                if not t:
+                    res = False
+                left = right
+            return res
+        return self.truth_of(self.val(n, env))
+
+    @staticmethod
+    def compare(op, a, b):
+        if a is T_UNKNOWN or b is T_UNKNOWN:
+            return T_UNKNOWN
+        live = isinstance(a, _Live) or isinstance(b, _Live)
+        if isinstance(op, (ast.Is, ast.IsNot, ast.Eq, ast.NotEq)):
+            if live:
+                if isinstance(a, _Live) and isinstance(b, _Live):
+                    return T_UNKNOWN
+                same = False                         # an exception class / instance / traceback is no constant
+            elif isinstance(op, (ast.Is, ast.IsNot)):
+                if not (a is None or b is None or isinstance(a, bool) or isinstance(b, bool)):
+                    return T_UNKNOWN
+                same = a is b
+            else:
+                same = a == b
+            return same if isinstance(op, (ast.Is, ast.Eq)) else not same
+        if live or isinstance(a, tuple) or isinstance(b, tuple) or a is None or b is None or isinstance(a, str) != isinstance(b, str):
+            return T_UNKNOWN
+        return {ast.Lt: a < b, ast.LtE: a <= b, ast.Gt: a > b, ast.GtE: a >= b}.get(type(op), T_UNKNOWN)
+
+    def assign(self, t, v, env):
+        if isinstance(t, ast.Name):
+            env[t.id] = v
+        elif isinstance(t, (ast.Tuple, ast.List)):
+            for i, e in enumerate(t.elts):
+                self.assign(e, v[i] if isinstance(v, tuple) and len(v) == len(t.elts) else T_UNKNOWN, env)
+
+    def block(self, stmts, envs):
+        for s in stmts:
+            nxt = []
+            for env in envs:
+                nxt.extend(self.stmt(s, env))
+            envs = nxt
+            if len(envs) > 256:
+                raise AnalysisError('Shadow %s: too many paths' % self.fn.name)
+        return envs
+
+    def stmt(self, s, env):
+        if isinstance(s, ast.Return):
+            self.results.append((False if s.value is None else self.truth(s.value, env), s))
+            return []
+        if isinstance(s, ast.Raise):
+            return []                                     # raising inside __exit__ certainly does not swallow
+        if isinstance(s, ast.If):
+            t = self.truth(s.test, env)
+            if t is T_UNKNOWN:
+                return self.block(s.body, [dict(env)]) + self.block(s.orelse, [dict(env)])
+            return self.block(s.body if t else s.orelse, [env])
+        if isinstance(s, ast.Assign):
+            v = self.val(s.value, env)
+            for t in s.targets:
+                self.assign(t, v, env)
+            return [env]
+        if isinstance(s, ast.AnnAssign):
+            if s.value is not None:
+                self.assign(s.target, self.val(s.value, env), env)
+            return [env]
+        if isinstance(s, ast.AugAssign):
+            self.assign(s.target, T_UNKNOWN, env)
+            return [env]
+        if isinstance(s, (ast.Expr, ast.Pass, ast.Import, ast.ImportFrom, ast.Assert, ast.Global, ast.Nonlocal, ast.Delete)):
+            return [env]
+        if isinstance(s, (ast.With, ast.Try, ast.For, ast.While)):
+            # not interpreted: every binding made inside becomes unknown, every return inside has an unknown value
+            for x in ast.walk(s):
+                if isinstance(x, ast.Name) and isinstance(x.ctx, ast.Store):
+                    env[x.id] = T_UNKNOWN
+                elif isinstance(x, ast.Return):
+                    self.results.append((T_UNKNOWN if x.value is not None else False, x))
+            return [env]
+        self.results.append((T_UNKNOWN, s))
+        return [env]
+
+
+def exit_problems(cdef, functions=None):
+    """-> (FunctionDef of __exit__ or None, [(truth, node)]); `__exit__ = lambda ...` / `__exit__ = <module function>` in the class body count."""
+    fn = None
+    for s in cdef.body:
+        if isinstance(s, ast.FunctionDef) and s.name == '__exit__':
+            fn = s
+        elif isinstance(s, (ast.Assign, ast.AnnAssign)) and s.value is not None and \
+                any(isinstance(t, ast.Name) and t.id == '__exit__' for t in (s.targets if isinstance(s, ast.Assign) else [s.target])):
+            v = s.value
+            if isinstance(v, ast.Lambda):
+                fn = ast.copy_location(ast.FunctionDef(name='__exit__', args=v.args, body=[ast.copy_location(ast.Return(value=v.body), v)], decorator_list=[]), v)
+            elif isinstance(v, ast.Name) and functions and v.id in functions:
+                fn = functions[v.id]
+            else:
+                return s, [(T_UNKNOWN, v)]
+    if fn is None:
+        return None, []
+    return fn, ExitEval(fn).run()
+
+
+def rule_exit(ctx):
+    r = Rule('C38-EXIT', 'no context manager class of Shadow.py swallows exceptions: every return of an __exit__ method is false (or unknown) when an exception is in flight', floor=3)
+    tree = ctx.parse(SHADOW)
+    users = {}
+    for s in tree.body:
+        if isinstance(s, ast.Assign) and isinstance(s.value, ast.Call) and isinstance(s.value.func, ast.Name):
+            for t in s.targets:
+                if isinstance(t, ast.Name):
+                    users.setdefault(s.value.func.id, []).append(t.id)
+    for qual, cdef in shadow_classes(tree):
+        fn, results = exit_problems(cdef, module_functions(tree))
+        if fn is None:
+            continue
+        key = 'Shadow.%s.__exit__' % qual
+        r.inst(key, sample='%s: %d path(s): %s' % (key, len(results), sorted({str(t) for t, _ in results})))
+        spell = ' / '.join('cython.' + u for u in users.get(cdef.name, [])[:3]) or 'cython.%s(...)' % qual
+        bad = [(t, n) for t, n in results if t is True]
+        if bad:
+            n = bad[0][1]
+            r.violate(key, SHADOW, n.lineno,
+                      '%s returns a true value (`%s`) while an exception is in flight: an exception raised inside `with %s:` is swallowed when the module is run uncompiled; '
+                      'the compiled module has no context manager there (GIL / critical-section / directive blocks are plain C blocks) and propagates it'
+                      % (key, node_src(n.value, 50) if isinstance(n, ast.Return) and n.value is not None else node_src(n, 50), spell))
+        for t, n in results:
+            if t is T_UNKNOWN:
+                r.info('%s: the truth of `%s` with an exception in flight is not decided (delegation / test on the exception kind)' % (key, node_src(n, 60)))
+    pc = ast.parse(
+        "class A:\n    def __exit__(self, t, v, tb):\n        return True\n"
+        "class B:\n    def __exit__(self, t, v, tb):\n        if t is None:\n            return False\n        return t is not None\n"
+        "class C:\n    def __exit__(self, *exc):\n        ok = exc[0] is None\n        return not exc[0] or ok\n"
+        "class D:\n    def __exit__(self, t, v, tb):\n        return self._l.__exit__(t, v, tb)\n"
+        "class E:\n    def __exit__(self, t, v, tb):\n        suppress = bool(t)\n        return suppress and 1\n")
+    got = {c.name: sorted({str(t) for t, _ in exit_problems(c)[1]}) for c in pc.body}
+    r.positive_control(got == {'A': ['True'], 'B': ['True'], 'C': ['False'], 'D': [T_UNKNOWN], 'E': ['True']}, '__exit__ returning True / `exc_type is not None`')
+    return r
+
+
+# ================================================================================================ C38-KIND
+# cython.cast(cython.double, 7) / cython.double(7) / cython.declare(cython.double, 7) call the Python type at the end of the typedef() chain of the shadow
+# name; the compiled module converts through the C type and back with the type's to-Python conversion.  Necessary condition: the builtin at the end of the
+# chain is the Python type the compiler converts that C type to (int / float / complex / bool).
+PYREX = 'Cython/Compiler/PyrexTypes.py'
+BUILTIN_KINDS = ('int', 'float', 'complex', 'bool', 'str', 'bytes')
+
+
+def _class_graph(tree):
+    return {c.name: c for c in tree.body if isinstance(c, ast.ClassDef)}
+
+
+def _class_attr(classes, cname, attr, seen=None):
+    """Nearest class-level `attr = <node>` along the bases (depth first, left to right) -> value node or None."""
+    seen = seen if seen is not None else set()
+    if cname in seen or cname not in classes:
+        return None
+    seen.add(cname)
+    c = classes[cname]
+    for s in c.body:
+        if isinstance(s, ast.Assign) and any(isinstance(t, ast.Name) and t.id == attr for t in s.targets):
+            return s.value
+        if isinstance(s, ast.AnnAssign) and isinstance(s.target, ast.Name) and s.target.id == attr and s.value is not None:
+            return s.value
+    for b in c.bases:
+        if isinstance(b, ast.Name):
+            v = _class_attr(classes, b.id, attr, seen)
+            if v is not None:
+                return v
+    return None
+
+
+def compiler_type_kinds(tree):
+    """C type name N that `cython.N` resolves by table lookup (rows (1, 0, N) of modifiers_and_name_to_type, keys of fixed_sign_int_types)
+    -> (python kind or None, class name of the type object, line)."""
+    assigns, rows = {}, {}
+    for n in tree.body:
+        if isinstance(n, ast.Assign) and len(n.targets) == 1 and isinstance(n.targets[0], ast.Name):
+            assigns[n.targets[0].id] = n.value
+    fx, mods = assigns.get('fixed_sign_int_types'), assigns.get('modifiers_and_name_to_type')
+    if not isinstance(fx, ast.Dict) or not isinstance(mods, ast.Dict):
+        raise AnalysisError('PyrexTypes.fixed_sign_int_types / modifiers_and_name_to_type not found as dict literals')
+    for k, v in zip(mods.keys, mods.values):
+        try:
+            t = ast.literal_eval(k)
+        except Exception:
+            continue
+        if isinstance(t, tuple) and len(t) == 3 and t[0] == 1 and t[1] == 0 and isinstance(t[2], str):
+            rows[t[2]] = v
+    for k, v in zip(fx.keys, fx.values):
+        if isinstance(k, ast.Constant) and isinstance(k.value, str) and isinstance(v, ast.Tuple) and len(v.elts) == 2:
+            rows[k.value] = v.elts[1]
+    classes = _class_graph(tree)
+    out = {}
+    for name, v in rows.items():
+        ctor = None
+        hops = 0
+        while isinstance(v, ast.Name) and v.id in assigns and hops < 5:
+            v, hops = assigns[v.id], hops + 1
+        if isinstance(v, ast.Call) and isinstance(v.func, ast.Name) and v.func.id in classes:
+            ctor = v.func.id
+        if ctor is None:
+            out[name] = (None, None, getattr(v, 'lineno', 1), 'type object not built by a direct constructor call')
+            continue
+
+        def flag(a):
+            x = _class_attr(classes, ctor, a)
+            return isinstance(x, ast.Constant) and bool(x.value)
+        conv = _class_attr(classes, ctor, 'to_py_function')
+        conv = conv.value if isinstance(conv, ast.Constant) and isinstance(conv.value, str) else ''
+        if 'PyBool' in conv:
+            kind, why = 'bool', 'to_py_function %s' % conv
+        elif 'PyUnicode' in conv:
+            kind, why = None, 'character type: converted with %s (a str of length 1), documented as int-or-str in pure mode' % conv
+        elif flag('is_complex'):
+            kind, why = 'complex', 'is_complex'
+        elif flag('is_float'):
+            kind, why = 'float', 'is_float'
+        elif flag('is_int'):
+            kind, why = 'int', 'is_int'
+        else:
+            kind, why = None, 'not a numeric type'
+        out[name] = (kind, ctor, v.lineno, why)
+    return out
+
+
+def shadow_type_bases(tree, model_cls):
+    """Statement-order pass over the module body of Shadow.py: name -> (builtin at the end of the chain of typedef() calls | None, line, detail).
+    Handles `N = typedef(B, ...)`, plain aliases `N = M`, and `gs[<key>] = typedef(B, ...)` inside for loops over literal lists (keys evaluated over the
+    finite sets the loop variables range over, by ShadowModel.scalars); any other value bound to a name makes it unknown."""
+    sm = model_cls(ast.Module(body=[], type_ignores=[]))
+    kinds, galias, consts = {}, set(), {}
+
+    def base_of(call):
+        """typedef(<B>, ...) -> resolved kind of B at this point of the module, else None"""
+        if not (isinstance(call, ast.Call) and isinstance(call.func, ast.Name) and call.func.id == 'typedef' and call.args):
+            return None
+        b = call.args[0]
+        if isinstance(b, ast.Name):
+            if b.id in kinds:
+                return kinds[b.id][0]
+            if b.id in BUILTIN_KINDS:
+                return b.id
+        return None
+
+    def bind(name, value, line):
+        if isinstance(value, ast.Call) and isinstance(value.func, ast.Name) and value.func.id == 'typedef':
+            k = base_of(value)
+            kinds[name] = (k, line, node_src(value, 60))
+        elif isinstance(value, ast.Name) and value.id in kinds:
+            kinds[name] = kinds[value.id]
+        elif isinstance(value, ast.Name) and value.id in BUILTIN_KINDS:
+            kinds[name] = (value.id, line, 'alias of the builtin %s' % value.id)
+        else:
+            kinds[name] = (None, line, 'bound to `%s`, not a direct typedef(<name>, ...) call' % (node_src(value, 40) if value is not None else '?'))
+
+    def block(stmts, env):
+        for s in stmts:
+            if isinstance(s, (ast.Assign, ast.AnnAssign)):
+                value = s.value
+                if value is None:
+                    continue
+                targets = s.targets if isinstance(s, ast.Assign) else [s.target]
+                for t in targets:
+                    if isinstance(t, ast.Name):
+                        if isinstance(value, ast.Call) and isinstance(value.func, ast.Name) and value.func.id == 'globals' and not value.args:
+                            galias.add(t.id)
+                        try:
+                            lit = ast.literal_eval(value)
+                        except Exception:
+                            lit = None
+                        if isinstance(lit, (list, tuple)) and all(isinstance(x, (str, int)) for x in lit):
+                            consts[t.id] = tuple(lit)
+                        else:
+                            consts.pop(t.id, None)
+                        bind(t.id, value, s.lineno)
+                    elif isinstance(t, ast.Subscript) and isinstance(t.value, ast.Name) and t.value.id in galias:
+                        keys = sm.scalars(t.slice, env)
+                        if keys is None:
+                            continue
+                        for k in keys:
+                            if isinstance(k, str):
+                                bind(k, value, s.lineno)
+            elif isinstance(s, (ast.FunctionDef, ast.ClassDef)):
+                kinds[s.name] = (None, s.lineno, 'a %s' % type(s).__name__)
+            elif isinstance(s, ast.If):
+                if isinstance(s.test, ast.Name) and s.test.id == 'TYPE_CHECKING':
+                    block(s.orelse, env)
+                else:
+                    block(s.body, env)
+                    block(s.orelse, env)
+            elif isinstance(s, ast.For):
+                sm.consts = consts
+                vals = sm.sequence(s.iter, env)
+                env2 = dict(env)
+                for x in ast.walk(s.target):
+                    if isinstance(x, ast.Name):
+                        env2.pop(x.id, None)
+                if isinstance(s.target, ast.Name) and vals is not None:
+                    env2[s.target.id] = vals
+                block(s.body, env2)
+            elif isinstance(s, (ast.With, ast.Try, ast.While)):
+                block(s.body, env)
+    block(tree.body, {})
+    return kinds
+
+
+def kind_problems(ptree, stree, model_cls):
+    comp = compiler_type_kinds(ptree)
+    shadow = shadow_type_bases(stree, model_cls)
+    for name in sorted(comp):
+        kind, ctor, line, why = comp[name]
+        yield name, kind, ctor, why, shadow.get(name)
+
+
+def rule_kind(ctx):
+    from .pC38 import ShadowModel
+    r = Rule('C38-KIND', 'the Python type at the end of the typedef() chain of each Shadow C-type name (what cast / declare / the type call apply to the value uncompiled) is the '
+             'type the compiler converts that C type to: int / float / complex / bool', floor=12)
+    for name, kind, ctor, why, sh in kind_problems(ctx.parse(PYREX), ctx.parse(SHADOW), ShadowModel):
+        key = 'kind:' + name
+        if kind is None:
+            r.info('%s: not compared (%s)' % (key, why))
+            continue
+        if sh is None:
+            r.info('%s: no typedef binding found in Shadow.py (existence is decided by C38-TYPES)' % key)
+            continue
+        base, line, detail = sh
+        r.inst(key, sample='cython.%s: compiler %s (%s, %s) / Shadow %s' % (name, kind, ctor, why, base))
+        if base is None:
+            r.info('%s: the base type of the Shadow binding is not decidable (%s)' % (key, detail))
+        elif base != kind:
+            r.violate(key, SHADOW, line,
+                      'Shadow binds cython.%s to a typedef whose base Python type is `%s` (%s), but the compiler treats %s as a C %s type (%s: %s): '
+                      'cython.cast(cython.%s, v) / cython.%s(v) / cython.declare(cython.%s, v) yield %s(v) when run uncompiled and a Python %s when compiled'
+                      % (name, base, detail, name, kind, ctor, why, name, name, name, base, kind))
+    pc_p = ast.parse("class CType: pass\nclass CNumericType(CType):\n    is_numeric = 1\nclass CIntType(CNumericType):\n    is_int = 1\n"
+                     "class CBIntType(CIntType):\n    to_py_function = '__Pyx_PyBool_FromLong'\nclass CFloatType(CNumericType):\n    is_float = 1\n"
+                     "c_int_type = CIntType(2)\nc_double_type = CFloatType(6)\nc_bint_type = CBIntType(2)\n"
+                     "fixed_sign_int_types = {'bint': (1, c_bint_type)}\nmodifiers_and_name_to_type = {(1, 0, 'int'): c_int_type, (1, 0, 'double'): c_double_type, (0, 0, 'int'): c_int_type}\n")
+    pc_s = ast.parse("py_int = typedef(int, 'int')\npy_float = typedef(float)\ngs = globals()\nfor name in ['int', 'double']:\n    gs[name] = typedef(py_int, name)\n"
+                     "bint = typedef(int, 'bint')\n")
+    got = {n: (k, sh[0] if sh else None) for n, k, c, w, sh in kind_problems(pc_p, pc_s, ShadowModel)}
+    r.positive_control(got == {'int': ('int', 'int'), 'double': ('float', 'int'), 'bint': ('bool', 'int')}, 'double / bint bound to an int-based typedef')
+    return r
+
+
+# ================================================================================================ C38-PRANGE
+# cython.parallel.prange follows the range() argument convention: prange(stop) / prange(start, stop) / prange(start, stop, step).  Both sides are
+# interpreted by the world evaluator (Mini) with the positional arguments as opaque symbols: the compiler's ParallelRangeNode.analyse_declarations
+# (which slot of start/stop/step each positional argument is stored in) and the shadow prange() (which range(...) call it returns).
+NODES = 'Cython/Compiler/Nodes.py'
+
+
+class _RangeCall:
+    def __init__(self, args, node):
+        self.args, self.node = tuple(args), node
+
+    def triple(self):
+        a = self.args
+        if len(a) == 1:
+            return (0, a[0], 1)
+        if len(a) == 2:
+            return (a[0], a[1], 1)
+        return a if len(a) == 3 else None
+
+    def __repr__(self):
+        return 'range(%s)' % ', '.join(map(repr, self.args))
+
+
+def _class_consts(cdef):
+    """class-level `a = b = <constant>` bindings (defaults of instance attributes)."""
+    out = {}
+    for s in cdef.body:
+        if isinstance(s, ast.Assign) and isinstance(s.value, ast.Constant):
+            for t in s.targets:
+                if isinstance(t, ast.Name):
+                    out[t.id] = s.value.value
+    return out
+
+
+def prange_compiler_slots(ctx, arity, syms):
+    """(start, stop, step) after ParallelRangeNode.analyse_declarations for `arity` positional arguments; None slot = not given."""
+    cdef = None
+    for n in ctx.parse(NODES).body:
+        if isinstance(n, ast.ClassDef) and n.name == 'ParallelRangeNode':
+            cdef = n
+    if cdef is None:
+        raise AnalysisError('Nodes.ParallelRangeNode vanished')
+    fn = [f for f in cdef.body if isinstance(f, ast.FunctionDef) and f.name == 'analyse_declarations']
+    if not fn:
+        raise AnalysisError('ParallelRangeNode.analyse_declarations vanished')
+    attrs = _class_consts(cdef)
+    attrs.update(args=tuple(syms[:arity]), target=Sym('target'), else_clause=None)
+    m = Mini(what='ParallelRangeNode.analyse_declarations')
+    rows = set()
+    for st, flow, val in m.run(fn[0], State(attrs=attrs), {}):
+        if flow == 'raise':
+            continue
+        rows.add((st.attrs.get('start', UNK), st.attrs.get('stop', UNK), st.attrs.get('step', UNK)))
+    return rows
+
+
+def prange_shadow_calls(fn, arity, syms):
+    """Every value the shadow prange() may return for `arity` positional arguments -> list of _RangeCall / other values."""
+    def rec(n, st, mini, args, kwargs):
+        f = n.func
+        if isinstance(f, ast.Name) and f.id == 'range' and not kwargs and not any(isinstance(a, ast.Starred) for a in n.args):
+            return _RangeCall(args, n)
+        if isinstance(f, ast.Name) and f.id in ('iter', 'list', 'tuple') and len(args) == 1 and isinstance(args[0], _RangeCall):
+            return args[0]
+        return NotImplemented
+    a = fn.args
+    params = [x.arg for x in a.posonlyargs + a.args]
+    if a.vararg is not None or len(params) - 1 < arity:
+        return None
+    m = Mini(on_call=rec, what='Shadow prange')
+    out = []
+    for st, flow, val in m.run(fn, State(), dict(zip(params[1:], syms[:arity]))):
+        out.append((flow, val))
+    return out
+
+
+def prange_problems(ctx, fn):
+    """-> [(arity, expected triple, source of the expectation, got list, problem or None)]"""
+    syms = [Sym('arg%d' % i) for i in range(3)]
+    documented = {1: (None, syms[0], None), 2: (syms[0], syms[1], None), 3: (syms[0], syms[1], syms[2])}
+    res = []
+    for arity in (1, 2, 3):
+        src = 'ParallelRangeNode.analyse_declarations'
+        try:
+            rows = prange_compiler_slots(ctx, arity, syms) if ctx is not None else set()
+        except AnalysisError:
+            rows = set()
+        if len(rows) != 1 or any(x is UNK for x in next(iter(rows))):
+            rows, src = {documented[arity]}, 'the documented signature prange([start,] stop[, step]) (the compiler side could not be evaluated)'
+        start, stop, step = next(iter(rows))
+        want = (0 if start is None else start, stop, 1 if step is None else step)
+        got = prange_shadow_calls(fn, arity, syms)
+        problem = None
+        if got is None:
+            problem = 'cannot be called with %d positional argument(s)' % arity
+        else:
+            for flow, val in got:
+                if flow == 'raise':
+                    problem = 'raises'
+                elif not isinstance(val, _RangeCall):
+                    problem = UNK if val is UNK or val is None and flow != 'return' else 'returns %r, not a range' % (val,)
+                elif val.triple() is None or any(x is UNK for x in val.triple()):
+                    problem = UNK
+                elif val.triple() != want:
+                    problem = 'returns %r, i.e. start=%r stop=%r step=%r' % ((val,) + val.triple())
+                if problem is not None:
+                    break
+        d = documented[arity]
+        if problem and problem is not UNK and got and all(isinstance(v, _RangeCall) and v.triple() == (0 if d[0] is None else d[0], d[1], 1 if d[2] is None else d[2]) for f, v in got):
+            src = 'COMPILER:' + src          # the shadow side follows the documented range() convention, the compiler side does not
+        res.append((arity, want, src, got, problem))
+    return res
+
+
+def rule_prange(ctx):
+    from .pC38 import ShadowModel, Obj
+    r = Rule('C38-PRANGE', 'the prange() of the object registered as cython.parallel returns range(start, stop, step) with the positional arguments in the slots '
+             'ParallelRangeNode.analyse_declarations stores them in (1 -> stop; 2 -> start, stop; 3 -> start, stop, step)', floor=3)
+    sh = ShadowModel(ctx.parse(SHADOW), SHADOW)
+    fn = None
+    if 'cython.parallel' in sh.sysmods:
+        o = sh.getattr(sh.sysmods['cython.parallel'][0], 'prange')
+        if isinstance(o, Obj) and isinstance(o.node, ast.FunctionDef):
+            fn = o.node
+    if fn is None:
+        r.info('no prange method on the object registered as cython.parallel (reported by C38-PAR / C38-SUBMOD)')
+        for arity in (1, 2, 3):
+            r.inst('prange:arity%d' % arity)
+    else:
+        for arity, want, src, got, problem in prange_problems(ctx, fn):
+            key = 'prange:arity%d' % arity
+            call = 'prange(%s)' % ', '.join('arg%d' % i for i in range(arity))
+            r.inst(key, sample='%s -> %s (expected start=%r stop=%r step=%r from %s)' % (call, got, want[0], want[1], want[2], src.replace('COMPILER:', '').split(' (')[0]))
+            if problem is UNK:
+                r.info('%s: the value returned by the shadow prange is not decidable' % key)
+            elif problem:
+                blame = (NODES, 1) if src.startswith('COMPILER:') else (SHADOW, fn.lineno)
+                src = src.replace('COMPILER:', '')
+                r.violate(key, blame[0], blame[1],
+                          'Shadow %s.%s: %s %s; the compiled loop iterates start=%r, stop=%r, step=%r (%s; an omitted start is 0, an omitted step 1): '
+                          '`for i in prange(...)` visits different indices when the module is run uncompiled'
+                          % ('cython.parallel', fn.name, call, problem, want[0], want[1], want[2], src))
+    pc = ast.parse("class P:\n    def prange(self, start=0, stop=None, step=1, nogil=False):\n        if stop is None:\n            stop = start\n        return range(start, stop, step)\n"
+                   "    def ok(self, first, second=None, third=None):\n        if second is None:\n            return iter(range(first))\n        if third is None:\n            third = 1\n"
+                   "        return range(first, second, third)\n").body[0]
+    bad = [a for a, w, s, g, p in prange_problems(None, pc.body[0]) if p and p is not UNK]
+    good = [a for a, w, s, g, p in prange_problems(None, pc.body[1]) if p]
+    r.positive_control(bad == [1] and good == [], 'prange(n) that forgets start = 0')
+    return r
+
+
+# ================================================================================================ C38-COP
+# The compiler maps cython.cdiv / cython.cmod / cython.cast to the C operation their shadow emulation stands for.  TransformBuiltinMethods.visit_SimpleCallNode
+# / visit_GeneralCallNode are interpreted by the world evaluator in the worlds function = 'cdiv' | 'cmod' | 'cast' with two opaque operands; every node
+# construction (a call of a function / class of ExprNodes) and every later attribute store on the constructed node is recorded per path.
+EXPRNODES = 'Cython/Compiler/ExprNodes.py'
+
+
+class Built(Sym):
+    """A node constructed on the interpreted path: Built.kind = callee name, Built.bound = arguments bound by name."""
+    def __init__(self, kind, bound, node):
+        Sym.__init__(self, 'built:' + kind)
+        self.kind, self.bound, self.node = kind, bound, node
+
+
+class Mini2(Mini):
+    """Mini + (a) attribute stores on non-self objects recorded in the trace as ('store', object, attr, value, node) and visible to later loads on the same
+    path, (b) '%'-formatting of constant strings, (c) tuples as the model of list literals: `x = []`, `x.append(v)`, `x.extend(t)` rebind the name."""
+    lists = False
+
+    def ev(self, n, st):
+        if isinstance(n, ast.Attribute) and not is_self_attr(n):
+            b = self.ev(n.value, st)
+            if isinstance(b, Sym):
+                for e in reversed(st.trace):
+                    if e[0] == 'store' and e[1] is b and e[2] == n.attr:
+                        return e[3]
+            if self.oracle is not None:
+                v = self.oracle(n, st, self)
+                if v is not NotImplemented:
+                    return v
+            if isinstance(b, Sym):
+                return b.attrs.get(n.attr, UNK)
+            return UNK
+        if isinstance(n, ast.BinOp) and isinstance(n.op, ast.Mod):
+            a, b = self.ev(n.left, st), self.ev(n.right, st)
+            if isinstance(a, str) and (isinstance(b, str) or isinstance(b, tuple) and all(isinstance(x, str) for x in b)):
+                try:
+                    return a % b
+                except (TypeError, ValueError):
+                    return UNK
+            return UNK
+        if self.lists and isinstance(n, ast.List):
+            if self.oracle is not None:
+                v = self.oracle(n, st, self)
+                if v is not NotImplemented:
+                    return v
+            if any(isinstance(e, ast.Starred) for e in n.elts):
+                return UNK
+            return tuple(self.ev(e, st) for e in n.elts)
+        return Mini.ev(self, n, st)
+
+    def call(self, n, st):
+        f = n.func
+        if self.lists and isinstance(f, ast.Attribute) and isinstance(f.value, ast.Name) and f.attr in ('append', 'extend') and len(n.args) == 1 and not n.keywords \
+                and isinstance(st.env.get(f.value.id, UNK), tuple):
+            v = self.ev(n.args[0], st)
+            cur = st.env[f.value.id]
+            if f.attr == 'append':
+                st.env[f.value.id] = cur + (v,)
+            else:
+                st.env[f.value.id] = cur + v if isinstance(v, tuple) else UNK
+            return None
+        return Mini.call(self, n, st)
+
+    def assign(self, t, v, st):
+        if isinstance(t, ast.Attribute) and not is_self_attr(t):
+            b = self.ev(t.value, st)
+            if isinstance(b, Sym):
+                st.trace.append(('store', b, t.attr, v, t))
+            return
+        Mini.assign(self, t, v, st)
+
+
+def _callee_name(f):
+    return f.attr if isinstance(f, ast.Attribute) else f.id if isinstance(f, ast.Name) else None
+
+
+def _signature(fn, skip_self=False):
+    a = fn.args
+    params = [x.arg for x in a.posonlyargs + a.args]
+    return params[1:] if skip_self else params
+
+
+def exprnodes_constructors(ctx):
+    """name -> positional parameter names, for the module-level functions and classes of ExprNodes (a class takes `pos` positionally, the rest by keyword).
+    Only the `def` / `class` header lines are parsed (ExprNodes.py has 15000 lines)."""
+    def build():
+        import re
+        text = ctx.read(EXPRNODES)
+        out = {}
+        for m in re.finditer(r'^class (\w+)\b', text, re.M):
+            out[m.group(1)] = ['pos']
+        for m in re.finditer(r'^def (\w+)\(', text, re.M):
+            end = re.compile(r'\)\s*(->[^:]+)?:\s*(#.*)?$', re.M).search(text, m.end() - 1)
+            if end is None:
+                continue
+            try:
+                fn = ast.parse(text[m.start():end.end()] + '\n    pass\n').body[0]
+            except SyntaxError:
+                continue
+            out[m.group(1)] = _signature(fn)
+        return out
+    return ctx.memo('C38-exprnodes-ctors', build)
+
+
+def cop_paths(ctx, fn, function, ctors, icd, general=False):
+    """Interpret visit_SimpleCallNode / visit_GeneralCallNode for `cython.<function>(A0, A1)` -> (A0, A1, T0, T1, [(error?, [Built], [stores], flow, value)])"""
+    A = [Sym('operand-expression-%d' % i) for i in range(2)]
+    T = [Sym('type-named-by-argument-%d' % i) for i in range(2)]
+    for i in range(2):
+        A[i].methods['analyse_as_type'] = (lambda i: (lambda *a, **k: T[i]))(i)
+        A[i].attrs['pos'] = Sym('pos')
+    fnode = Sym('function-node', dict(pos=Sym('pos'), is_name=False))
+    args = (A[0], A[1])
+    node = Sym('call-node', dict(function=fnode, args=args, pos=Sym('pos'), positional_args=Sym('positional-args', dict(args=args)),
+                                 keyword_args=Sym('keyword-args')))
+    tables = {}
+
+    def table(name):
+        if name not in tables:
+            from .pC38 import class_str_set
+            try:
+                tables[name] = class_str_set(icd, name, PTT)[0]
+            except AnalysisError:
+                tables[name] = None
+        return tables[name]
+
+    def oracle(n, st, mini):
+        if isinstance(n, ast.Call) and isinstance(n.func, ast.Attribute) and n.func.attr == 'as_cython_attribute':
+            return function
+        if isinstance(n, ast.Compare) and len(n.ops) == 1 and isinstance(n.ops[0], (ast.In, ast.NotIn)) and isinstance(n.comparators[0], ast.Attribute) \
+                and isinstance(n.comparators[0].value, ast.Name) and n.comparators[0].value.id == icd.name:
+            tb = table(n.comparators[0].attr)
+            left = mini.ev(n.left, st)
+            if tb is None or not isinstance(left, str):
+                return UNK
+            return (left in tb) == isinstance(n.ops[0], ast.In)
+        if isinstance(n, ast.Call) and isinstance(n.func, ast.Name) and n.func.id == 'isinstance' and len(n.args) == 2:
+            v = mini.ev(n.args[0], st)
+            if isinstance(v, Built) and v.kind[:1].isupper():
+                names = [_callee_name(x) for x in (n.args[1].elts if isinstance(n.args[1], ast.Tuple) else [n.args[1]])]
+                if all(names) and v.kind not in names:
+                    return False          # a node built by calling class K is not an instance of an unrelated class name ... unless K derives from it
+            return UNK
+        return NotImplemented
+
+    def rec(n, st, mini, a, kw):
+        name = _callee_name(n.func)
+        if name == 'error':
+            st.trace.append(('error', n))
+            return NotImplemented
+        if name in ctors and not any(isinstance(x, ast.Starred) for x in n.args) and not any(k.arg is None for k in n.keywords) and \
+                (isinstance(n.func, ast.Name) or isinstance(n.func.value, ast.Name)):
+            bound = dict(zip(ctors[name], a))
+            bound.update(kw)
+            b = Built(name, bound, n)
+            st.trace.append(('build', b))
+            return b
+        return NotImplemented
+    m = Mini2(oracle, rec, what='TransformBuiltinMethods.%s[%s]' % (fn.name, function))
+    pname = fn.args.args[1].arg
+    out = []
+    for st, flow, val in m.run(fn, State(), {pname: node}):
+        if flow == 'raise':
+            continue
+        err = any(e[0] == 'error' for e in st.trace)
+        built = [e[1] for e in st.trace if e[0] == 'build']
+        stores = [e for e in st.trace if e[0] == 'store']
+        out.append((err, built, stores, flow, val))
+    return A, T, out
+
+
+COP_EXPECT = {'cdiv': ('binop', '/'), 'cmod': ('binop', '%'), 'cast': ('cast', None)}
+
+
+def cop_problems(ctx, cdef, icd, ctors, methods=('visit_SimpleCallNode', 'visit_GeneralCallNode')):
+    """-> [(key, sample, line, problem or None)]"""
+    res = []
+    fns = {f.name: f for f in cdef.body if isinstance(f, ast.FunctionDef)}
+    for mname in methods:
+        fn = fns.get(mname)
+        if fn is None:
+            raise AnalysisError('%s.%s vanished' % (cdef.name, mname))
+        for function, (what, op) in sorted(COP_EXPECT.items()):
+            if mname == 'visit_GeneralCallNode' and what != 'cast':
+                continue            # calls with keyword arguments: only cast(T, v, typecheck=...) is interpreted
+            key = 'cop:%s:%s' % (function, 'call' if mname == 'visit_SimpleCallNode' else 'call-with-keywords')
+            A, T, paths = cop_paths(ctx, fn, function, ctors, icd)
+            ok_paths = [p for p in paths if not p[0]]
+            problem, line = None, fn.lineno
+            if not ok_paths:
+                problem = 'every path of %s for cython.%s(a, b) reports an error' % (mname, function)
+            for err, built, stores, flow, val in ok_paths:
+                want_kind = 'binop_node' if what == 'binop' else 'TypecastNode'
+                nodes = [b for b in built if b.kind == want_kind]
+                if not nodes:
+                    problem = 'a path that reports no error constructs no %s for cython.%s(a, b): the call is compiled as an ordinary call / left to later phases' % (want_kind, function)
+                    break
+                b = nodes[-1]
+                line = b.node.lineno
+                if what == 'binop':
+                    got_op, o1, o2 = b.bound.get('operator', UNK), b.bound.get('operand1', UNK), b.bound.get('operand2', UNK)
+                    cdivision = b.bound.get('cdivision', None)
+                    for e in stores:
+                        if e[1] is b and e[2] == 'cdivision':
+                            cdivision = e[3]
+                    if got_op is UNK or o1 is UNK or o2 is UNK or cdivision is UNK:
+                        problem = UNK
+                    elif got_op != op:
+                        problem = 'cython.%s(a, b) is compiled to binop_node(operator=%r): the compiled module computes `a %s b` where Shadow.%s computes C `a %s b`' % (function, got_op, got_op, function, op)
+                    elif (o1, o2) != (A[0], A[1]):
+                        problem = 'cython.%s(a, b) is compiled to `%s %s %s`: operands are not (first argument, second argument)' % (
+                            function, 'b' if o1 is A[1] else 'a' if o1 is A[0] else '?', op, 'b' if o2 is A[1] else 'a' if o2 is A[0] else '?')
+                    elif cdivision is not True:
+                        problem = ('the node built for cython.%s(a, b) does not get cdivision = True (found %r): with the default directive cdivision=False the compiled '
+                                   'module uses Python floor semantics for negative operands, Shadow.%s emulates C truncation' % (function, cdivision, function))
+                else:
+                    ty, operand = b.bound.get('type', UNK), b.bound.get('operand', UNK)
+                    if ty is UNK or operand is UNK:
+                        problem = UNK
+                    elif ty is not T[0]:
+                        problem = 'cython.cast(T, v): the `type` of the TypecastNode is %r, not the type named by the first argument' % (ty,)
+                    elif operand is not A[1]:
+                        problem = 'cython.cast(T, v): the `operand` of the TypecastNode is %s, not the second argument: the compiled module casts the wrong expression' % (
+                            'the first argument (the type expression)' if operand is A[0] else repr(operand))
+                if problem is not None:
+                    break
+            res.append((key, '%s: %d path(s), %d without error' % (key, len(paths), len(ok_paths)), line, problem))
+    return res
+
+
+def cast_keywords(cdef):
+    """Keyword names visit_GeneralCallNode accepts for cython.cast: string constants tested against / looked up in the variable holding the
+    compile-time keyword dict, inside the branch guarded by == 'cast'."""
+    fn = [f for f in cdef.body if isinstance(f, ast.FunctionDef) and f.name == 'visit_GeneralCallNode']
+    if not fn:
+        raise AnalysisError('%s.visit_GeneralCallNode vanished' % cdef.name)
+    out = set()
+    for branch in ast.walk(fn[0]):
+        if not (isinstance(branch, ast.If) and any(isinstance(c, ast.Constant) and c.value == 'cast' for c in ast.walk(branch.test))):
+            continue
+        kwvars = set()
+        for n in ast.walk(branch):
+            if isinstance(n, ast.Assign) and any(isinstance(x, ast.Attribute) and x.attr == 'keyword_args' for x in ast.walk(n.value)):
+                kwvars |= {t.id for t in n.targets if isinstance(t, ast.Name)}
+        for n in ast.walk(branch):
+            if isinstance(n, ast.Compare) and len(n.ops) == 1 and isinstance(n.ops[0], (ast.In, ast.NotIn)) and isinstance(n.left, ast.Constant) \
+                    and isinstance(n.left.value, str) and isinstance(n.comparators[0], ast.Name) and n.comparators[0].id in kwvars:
+                out.add(n.left.value)
+            elif isinstance(n, ast.Call) and isinstance(n.func, ast.Attribute) and n.func.attr in ('get', 'pop') and isinstance(n.func.value, ast.Name) \
+                    and n.func.value.id in kwvars and n.args and isinstance(n.args[0], ast.Constant) and isinstance(n.args[0].value, str):
+                out.add(n.args[0].value)
+            elif isinstance(n, ast.Subscript) and isinstance(n.value, ast.Name) and n.value.id in kwvars and isinstance(n.slice, ast.Constant) and isinstance(n.slice.value, str):
+                out.add(n.slice.value)
+    return out
+
+
+# ---- ccall / cfunc -> overridable, and the (value, check) slot order of except_val between its writers and DefNode.as_cfunction
+def as_cfunction_signature(ctx):
+    fn = _method(ctx, NODES, 'DefNode', 'as_cfunction')
+    a = fn.args
+    params = [x.arg for x in a.args[1:]]
+    defaults = {}
+    for p, d in zip(params[len(params) - len(a.defaults):], a.defaults):
+        defaults[p] = d.value if isinstance(d, ast.Constant) else UNK
+    return fn, params, defaults
+
+
+def overridable_problems(ctx, fn, params, defaults):
+    want = {'ccall': True, 'cfunc': False}
+    res = {}
+    for w, rows, _ in exc_table(ctx, fn, params):
+        for row in rows:
+            kw = row[4]
+            got = kw.get('overridable', defaults.get('overridable', UNK))
+            k = 'overridable:' + w['kind']
+            cur = res.setdefault(k, [got, row[3].lineno, 0])
+            cur[2] += 1
+            if got is not want[w['kind']]:
+                cur[0], cur[1] = got, row[3].lineno
+    return [(k, v[0], want[k.split(':')[1]], v[1], v[2]) for k, v in sorted(res.items())]
+
+
+def except_reader_slots(ctx, fn):
+    """DefNode.as_cfunction with except_val = (S0, S1): which element reaches exception_value= / exception_check= of the declarator -> {keyword: index}"""
+    S = (Sym('except_val[0]'), Sym('except_val[1]'))
+    seen = []
+
+    def rec(n, st, mini, a, kw):
+        if 'exception_check' in kw or 'exception_value' in kw:
+            st.trace.append(('decl', kw, n))
+        return NotImplemented
+    m = Mini2(None, rec, what='DefNode.as_cfunction')
+    out = {}
+    for st, flow, val in m.run(fn, State(), {'except_val': S, 'cfunc': None, 'scope': None}):
+        if flow == 'raise':
+            continue
+        for e in st.trace:
+            if e[0] == 'decl':
+                for k in ('exception_value', 'exception_check'):
+                    v = e[1].get(k, UNK)
+                    idx = 0 if v is S[0] else 1 if v is S[1] else None
+                    out.setdefault(k, set()).add(idx)
+                seen.append(e[2])
+    return out, (seen[0].lineno if seen else fn.lineno)
+
+
+def except_writer_slots(ctx, visit_fn, params, parse_fn):
+    """-> [(writer name, index of the check flag, index of the value, line)] read from the tuples the writers build."""
+    out = []
+    idx = set()
+    line = visit_fn.lineno
+    for w, rows, (E, R, A) in exc_table(ctx, visit_fn, params):
+        for row in rows:
+            ev = row[1]
+            if isinstance(ev, tuple) and len(ev) == 2:
+                b = [i for i, x in enumerate(ev) if isinstance(x, bool)]
+                if len(b) == 1:
+                    idx.add(b[0])
+                    line = row[3].lineno
+    out.append(('AdjustDefByDirectives.%s' % visit_fn.name, idx, None, line))
+    V = Sym('exceptval-argument')
+
+    def oracle(n, st, mini):
+        if isinstance(n, ast.Call) and isinstance(n.func, ast.Name) and n.func.id == 'isinstance':
+            return UNK
+        return NotImplemented
+    m = Mini2(oracle, None, what='InterpretCompilerDirectives.%s' % parse_fn.name)
+    pnames = [x.arg for x in parse_fn.args.args[1:]]
+    cidx, vidx, pline = set(), set(), parse_fn.lineno
+    for st, flow, val in m.run(parse_fn, State(), dict(zip(pnames, ('exceptval', (V,), None, Sym('pos'))))):
+        if flow != 'return' or not (isinstance(val, tuple) and len(val) == 2 and val[0] == 'exceptval' and isinstance(val[1], tuple) and len(val[1]) == 2):
+            continue
+        cidx |= {i for i, x in enumerate(val[1]) if isinstance(x, bool)}
+        vidx |= {i for i, x in enumerate(val[1]) if x is V}
+    out.append(('InterpretCompilerDirectives.%s' % parse_fn.name, cidx, vidx, pline))
+    return out
+
+
+def rule_cop(ctx):
+    from .pC38 import class_def
+    r = Rule('C38-COP', 'cython.cdiv / cmod / cast are compiled to the C operation their shadow emulation stands for (binop `/` / `%` with cdivision=True on the operands in '
+             'order; TypecastNode(type named by argument 0, operand = argument 1)); @ccall passes overridable=True and @cfunc overridable=False to as_cfunction; '
+             'as_cfunction unpacks except_val in the (value, check) order its writers build', floor=7)
+    ptt = ctx.parse(PTT)
+    tbm, icd = class_def(ptt, 'TransformBuiltinMethods', PTT), class_def(ptt, 'InterpretCompilerDirectives', PTT)
+    ctors = exprnodes_constructors(ctx)
+    for need in ('binop_node', 'TypecastNode'):
+        if need not in ctors:
+            raise AnalysisError('ExprNodes.%s vanished' % need)
+    for key, sample, line, problem in cop_problems(ctx, tbm, icd, ctors):
+        r.inst(key, sample=sample)
+        if problem is UNK:
+            r.info('%s: the arguments of the constructed node could not be evaluated' % key)
+        elif problem:
+            r.violate(key, PTT, line, 'TransformBuiltinMethods: %s' % problem)
+    # ---- overridable
+    visit = _method(ctx, PTT, 'AdjustDefByDirectives', 'visit_DefNode')
+    acf, params, defaults = as_cfunction_signature(ctx)
+    for key, got, want, line, n in overridable_problems(ctx, visit, params, defaults):
+        r.inst(key, sample='%s: as_cfunction(overridable=%r) on %d path(s)' % (key, got, n))
+        if got is UNK:
+            r.info('%s: the overridable argument could not be evaluated' % key)
+        elif got is not want:
+            kind = key.split(':')[1]
+            r.violate(key, PTT, line, 'AdjustDefByDirectives.visit_DefNode: the @cython.%s branch calls as_cfunction(overridable=%r), must be %r: %s'
+                      % (kind, got, want, 'a @ccall function becomes a plain cdef function, Python callers (which work when the module is run uncompiled) get AttributeError'
+                         if kind == 'ccall' else 'a @cfunc function becomes cpdef: it stays visible from Python and dispatches through the instance dict'))
+    # ---- except_val slot order
+    parse = [f for f in icd.body if isinstance(f, ast.FunctionDef) and f.name == 'try_to_parse_directive']
+    if not parse:
+        raise AnalysisError('InterpretCompilerDirectives.try_to_parse_directive vanished')
+    reader, rline = except_reader_slots(ctx, acf)
+    for writer, cidx, vidx, line in except_writer_slots(ctx, visit, params, parse[0]):
+        key = 'except-slots:' + writer
+        r.inst(key, sample='%s builds except_val with the check flag at %s, as_cfunction reads exception_check from %s' % (writer, sorted(cidx), sorted(reader.get('exception_check', []), key=str)))
+        rc, rv = reader.get('exception_check', set()), reader.get('exception_value', set())
+        if len(cidx) != 1 or len(rc) != 1 or None in rc or (vidx is not None and len(vidx) != 1) or len(rv) != 1 or None in rv:
+            r.info('%s: slot order not decidable (writer check %s value %s, reader check %s value %s)' % (key, cidx, vidx, rc, rv))
+            continue
+        if cidx != rc or (vidx is not None and vidx != rv):
+            r.violate(key, NODES, rline,
+                      '%s builds the exceptval pair with the exception value at index %s and the check flag at index %s, DefNode.as_cfunction passes element %s as exception_value= '
+                      'and element %s as exception_check= to CFuncDeclaratorNode: the value of @cython.exceptval(v, check=c) becomes the check flag and vice versa'
+                      % (writer, sorted(vidx)[0] if vidx else 1 - sorted(cidx)[0], sorted(cidx)[0], sorted(rv)[0], sorted(rc)[0]))
+    # ---- positive control
+    pc = ast.parse(
+        "class InterpretCompilerDirectives:\n    unop_method_nodes = {'typeof': 1}\n    binop_method_nodes = {}\n"
+        "class T:\n"
+        "  def visit_SimpleCallNode(self, node):\n"
+        "    function = node.function.as_cython_attribute()\n"
+        "    if function:\n"
+        "      if function in InterpretCompilerDirectives.unop_method_nodes:\n        pass\n"
+        "      elif function == 'cast':\n"
+        "        type = node.args[0].analyse_as_type(self.current_env())\n"
+        "        if type:\n          node = ExprNodes.TypecastNode(node.function.pos, type=type, operand=node.args[0])\n"
+        "        else:\n          error(node.pos, 'Not a type')\n"
+        "      elif function == 'cmod':\n        node = ExprNodes.binop_node(node.function.pos, '%', node.args[0], node.args[1])\n"
+        "      elif function == 'cdiv':\n        node = ExprNodes.binop_node(node.function.pos, '/', node.args[1], node.args[0])\n        node.cdivision = True\n"
+        "    self.visitchildren(node)\n    return node\n")
+    got = {k: bool(p) and p is not UNK for k, s, l, p in cop_problems(ctx, pc.body[1], pc.body[0], ctors, methods=('visit_SimpleCallNode',))}
+    r.positive_control(got == {'cop:cast:call': True, 'cop:cdiv:call': True, 'cop:cmod:call': True}, 'cast of the type expression, cmod without cdivision, cdiv with swapped operands')
+    return r
+
+
+# ================================================================================================ C38-SHAPE
+# Every spelling of a directive that the compiler accepts as decorator / with-item can be called that way on the shadow object and gives the decorated
+# object back (resp. a context manager).  Compiler side: InterpretCompilerDirectives.try_to_parse_directives / try_to_parse_directive / visit_WithStatNode are
+# interpreted by the world evaluator per (directive, its type in Options.directive_types, argument shape): a shape is ACCEPTED when some path returns a
+# directive without raising PostParseError.  Shadow side: an abstract evaluator over the object descriptors of pC38.ShadowModel (ShEval below) binds the
+# call to the signature of the shadow function / lambda / class / __call__ and evaluates what it returns.
+OPTIONS = 'Cython/Compiler/Options.py'
+TYPE_NAMES = ('bool', 'int', 'str', 'type', 'dict', 'list')
+KTOK = {k: Sym('directive-type:' + k) for k in TYPE_NAMES + ('callable', 'defer', 'nonetype')}
+
+
+def directive_kind_table(ctx):
+    """directive -> 'bool' | 'int' | 'str' | 'type' | 'dict' | 'list' | 'callable' | 'defer' | 'nonetype' | None, as Options.py builds directive_types
+    (explicit entries, then type(default) for the remaining keys of _directive_defaults); plus the names of the module-level marker instances."""
+    from .pC38 import module_literal_dict, merges_defaults_into_types
+    opt = ctx.parse(OPTIONS)
+    _, dtypes = module_literal_dict(opt, 'directive_types', OPTIONS)
+    _, ddefs = module_literal_dict(opt, '_directive_defaults', OPTIONS)
+    funcs = {n.name for n in opt.body if isinstance(n, ast.FunctionDef)}
+    classes = {n.name for n in opt.body if isinstance(n, ast.ClassDef)}
+    markers = set()
+    for n in opt.body:
+        if isinstance(n, ast.Assign) and isinstance(n.value, ast.Call) and isinstance(n.value.func, ast.Name) and n.value.func.id in classes and not n.value.args:
+            markers |= {t.id for t in n.targets if isinstance(t, ast.Name)}
+    out = {}
+    for k, v in dtypes.items():
+        if isinstance(v, ast.Constant) and v.value is None:
+            out[k] = None
+        elif isinstance(v, ast.Name) and v.id in TYPE_NAMES:
+            out[k] = v.id
+        elif isinstance(v, ast.Name) and v.id in markers:
+            out[k] = 'defer'
+        elif isinstance(v, ast.Name) and v.id in funcs or isinstance(v, ast.Call) and isinstance(v.func, ast.Name) and v.func.id in funcs:
+            out[k] = 'callable'
+        else:
+            raise AnalysisError('Options.directive_types[%r]: value `%s` not understood' % (k, node_src(v, 40)))
+    if merges_defaults_into_types(opt, 'directive_types', '_directive_defaults'):
+        for k, v in ddefs.items():
+            if k in out:
+                continue
+            if isinstance(v, ast.Constant):
+                out[k] = 'nonetype' if v.value is None else type(v.value).__name__ if type(v.value).__name__ in TYPE_NAMES else 'callable'
+            elif isinstance(v, ast.List):
+                out[k] = 'list'
+            elif isinstance(v, ast.Dict):
+                out[k] = 'dict'
+            else:
+                raise AnalysisError('Options._directive_defaults[%r]: value `%s` not understood' % (k, node_src(v, 40)))
+    return out, markers
+
+
+class KV(Sym):
+    """A keyword argument node of a decorator call: unpacks as (key, value) and has .key / .value / .pos."""
+    def __init__(self, name, value):
+        Sym.__init__(self, 'kw:' + name)
+        self.key = Sym('key:' + name, dict(value=name, is_string_literal=True))
+        self.val = value
+        self.attrs = dict(key=self.key, value=value, pos=Sym('pos'))
+
+
+class MiniD(Mini2):
+    lists = True
+
+    def call(self, n, st):
+        f = n.func
+        if isinstance(f, ast.Attribute) and not is_self_attr(f) and isinstance(f.value, (ast.Name, ast.Attribute)) and self.ev(f.value, st) is None:
+            st.trace.append(('typeerror', n))           # a method call on None raises AttributeError in the compiler
+        return Mini2.call(self, n, st)
+
+    def assign(self, t, v, st):
+        if isinstance(t, (ast.Tuple, ast.List)) and isinstance(v, KV) and len(t.elts) == 2:
+            self.assign(t.elts[0], v.key, st)
+            self.assign(t.elts[1], v.val, st)
+            return
+        if isinstance(t, (ast.Tuple, ast.List)) and v is None:
+            st.trace.append(('typeerror', t))           # unpacking None raises TypeError in the compiler
+        Mini2.assign(self, t, v, st)
+
+
+def _class_names(n):
+    return [_callee_name(x) or '?' for x in (n.elts if isinstance(n, ast.Tuple) else [n])]
+
+
+class DirectiveWorld:
+    """One decorator / with-item expression `cython.<name>` (bare) or `cython.<name>(<nargs positional>, <kwnames>)`."""
+
+    def __init__(self, icd, name, table, markers, scopes, form, nargs=0, kwnames=()):
+        self.icd, self.name, self.table, self.markers, self.scopes, self.form = icd, name, table, markers, scopes, form
+        self.args = tuple(Sym('directive-argument-%d' % i) for i in range(nargs))
+        self.kwds = Sym('kwds', dict(key_value_pairs=tuple(KV(k, Sym('directive-argument-' + k)) for k in kwnames))) if kwnames else None
+        if self.kwds is not None:
+            self.kwds.methods['as_python_dict'] = lambda *a, **k: Sym('kwds-dict')
+        self.node = Sym('decorator-expression', dict(pos=Sym('pos'), function=Sym('function', dict(pos=Sym('pos'))), target=None, body=Sym('body')))
+        self.node.attrs['manager'] = self.node
+        self.methods = {f.name: f for f in icd.body if isinstance(f, ast.FunctionDef)}
+
+    def ktok(self, name):
+        k = self.table.get(name)
+        return None if k is None else KTOK[k]
+
+    def oracle(self, n, st, mini):
+        if isinstance(n, ast.Name) and isinstance(n.ctx, ast.Load) and n.id in TYPE_NAMES and n.id not in st.env:
+            return KTOK[n.id]
+        if isinstance(n, ast.Attribute) and n.attr in self.markers and isinstance(n.value, ast.Name):
+            return KTOK['defer']
+        if isinstance(n, ast.Name) and n.id in self.markers and n.id not in st.env:
+            return KTOK['defer']
+        if isinstance(n, ast.Call):
+            f = n.func
+            if isinstance(f, ast.Attribute):
+                if f.attr == 'as_cython_attribute':
+                    return self.name
+                if f.attr == 'explicit_args_kwds':
+                    return (self.args, self.kwds)
+                if f.attr == 'get' and isinstance(f.value, ast.Attribute) and f.value.attr == 'directive_types' and n.args:
+                    k = mini.ev(n.args[0], st)
+                    return self.ktok(k) if isinstance(k, str) else UNK
+            elif isinstance(f, ast.Name) and f.id == 'callable' and len(n.args) == 1:
+                v = mini.ev(n.args[0], st)
+                if v is None:
+                    return False
+                return (v is not KTOK['defer']) if v in KTOK.values() else UNK
+            elif isinstance(f, ast.Name) and f.id == 'isinstance' and len(n.args) == 2:
+                v = mini.ev(n.args[0], st)
+                names = _class_names(n.args[1])
+                if v is self.node:
+                    if all(x.endswith('CallNode') for x in names):
+                        return self.form == 'call'
+                    if all(x in ('AttributeNode', 'NameNode') for x in names):
+                        return self.form == 'bare'
+                    return UNK
+                if any(v is a for a in self.args) and all(x == 'NoneNode' for x in names):
+                    return False                    # world: no argument is the literal None (which selects the directive's default)
+                return UNK
+        return NotImplemented
+
+    # ---- try_to_parse_directives -> list of returned values of the accepted paths
+    def parse(self):
+        fn = self.methods.get('try_to_parse_directives')
+        inner = self.methods.get('try_to_parse_directive')
+        if fn is None or inner is None:
+            raise AnalysisError('InterpretCompilerDirectives.try_to_parse_directives / try_to_parse_directive vanished')
+        iparams = [x.arg for x in inner.args.args[1:]]
+
+        def rec(n, st, mini, a, kw):
+            f = n.func
+            if is_self_attr(f) and f.attr == inner.name:
+                bound = dict(zip(iparams, a))
+                bound.update(kw)
+                sub = MiniD(self.oracle, None, what='%s[%s]' % (inner.name, self.name))
+                vals = [v for s, flow, v in sub.run(inner, State(), bound) if flow == 'return' and not any(e[0] == 'typeerror' for e in s.trace)]
+                if not vals:
+                    st.trace.append(('rejected', n))
+                    return UNK
+                pairs = [v for v in vals if isinstance(v, tuple) and len(v) == 2]
+                return pairs[0] if pairs else UNK
+            return NotImplemented
+        m = MiniD(self.oracle, rec, what='try_to_parse_directives[%s]' % self.name)
+        out = []
+        for st, flow, val in m.run(fn, State(), {fn.args.args[1].arg: self.node}):
+            if flow != 'return' or val is None or any(e[0] in ('rejected', 'typeerror') for e in st.trace):
+                continue
+            if isinstance(val, tuple) and not val:
+                continue
+            out.append(val)
+        return out
+
+    # ---- visit_WithStatNode with the parse result
+    def with_accepted(self, parsed):
+        fn = self.methods.get('visit_WithStatNode')
+        if fn is None:
+            raise AnalysisError('InterpretCompilerDirectives.visit_WithStatNode vanished')
+        for val in parsed:
+            if not isinstance(val, tuple):
+                continue
+
+            def oracle(n, st, mini, val=val):
+                if isinstance(n, ast.Call) and is_self_attr(n.func) and n.func.attr == 'try_to_parse_directives':
+                    return val
+                return self.oracle(n, st, mini)
+
+            def rec(n, st, mini, a, kw):
+                f = n.func
+                if is_self_attr(f) and f.attr == 'check_directive_scope' and len(a) == 3 and isinstance(a[1], str) and isinstance(a[2], str):
+                    legal = self.scopes.get(a[1])
+                    ok = legal is None or a[2] in legal
+                    st.trace.append(('scope', ok))
+                    return ok
+                if is_self_attr(f) and f.attr.startswith('_transform'):
+                    st.trace.append(('applied', f.attr))
+                    return Sym('transformed')
+                if is_self_attr(f) and f.attr == 'visit_with_directives':
+                    st.trace.append(('applied', f.attr) if any(e == ('scope', True) for e in st.trace) else ('noop',))
+                    return Sym('directives-node')
+                if _callee_name(f) in ('nonfatal_error', 'error'):
+                    st.trace.append(('error', n))
+                return NotImplemented
+            m = MiniD(oracle, rec, what='visit_WithStatNode[%s]' % self.name)
+            for st, flow, v in m.run(fn, State(), {fn.args.args[1].arg: self.node}):
+                if flow == 'return' and any(e[0] == 'applied' for e in st.trace) and not any(e[0] in ('error', 'typeerror') for e in st.trace):
+                    return True
+        return False
+
+
+def shape_universe(icd, name, kind, table):
+    """[(shape label, form, nargs, kwnames)] tried for a directive."""
+    out = [('bare', 'bare', 0, ()), ('call(ARG)', 'call', 1, ())]
+    if kind == 'defer':
+        return out          # arguments are analysed elsewhere (_extract_directives, _transform_*): only the two generic spellings are claimed
+    out += [('call()', 'call', 0, ()), ('call(ARG, ARG)', 'call', 2, ()), ('call(x=ARG)', 'call', 0, ('x',))]
+    kws = set()
+    for f in icd.body:
+        if isinstance(f, ast.FunctionDef) and f.name == 'try_to_parse_directive':
+            for n in ast.walk(f):
+                if isinstance(n, ast.Compare) and len(n.ops) == 1 and isinstance(n.ops[0], ast.Eq) and isinstance(n.comparators[0], ast.Constant) and \
+                        isinstance(n.comparators[0].value, str) and isinstance(n.left, ast.Attribute) and n.left.attr == 'value' and \
+                        isinstance(n.left.value, ast.Attribute) and n.left.value.attr == 'key':
+                    kws.add(n.comparators[0].value)
+    for k in sorted(kws):
+        out += [('call(%s=ARG)' % k, 'call', 0, (k,)), ('call(ARG, %s=ARG)' % k, 'call', 1, (k,))]
+    for sub in sorted(table):
+        if sub.startswith(name + '.') and '.' not in sub[len(name) + 1:] and table[sub]:
+            out.append(('call(%s=ARG)' % sub[len(name) + 1:], 'call', 0, (sub[len(name) + 1:],)))
+    return out
+
+
+def decorator_scope_names(icd):
+    """Scope words with which decorators are interpreted: constant second arguments of self._extract_directives(node, <scope>)."""
+    out = set()
+    for n in ast.walk(icd):
+        if isinstance(n, ast.Call) and is_self_attr(n.func) and n.func.attr == '_extract_directives' and len(n.args) == 2 and isinstance(n.args[1], ast.Constant):
+            out.add(n.args[1].value)
+    if not out:
+        raise AnalysisError('no self._extract_directives(node, <scope>) call found in InterpretCompilerDirectives')
+    return out
+
+
+def accepted_forms(ctx, icd, table, markers, scopes, names):
+    """directive -> {'decorator': [shape rows], 'with': [shape rows]} of the accepted spellings."""
+    dec_scopes = decorator_scope_names(icd)
+    out = {}
+    for name in names:
+        kind = table.get(name)
+        sc = scopes.get(name)
+        acc = {'decorator': [], 'with': []}
+        for row in shape_universe(icd, name, kind, table):
+            label, form, nargs, kwnames = row
+            w = DirectiveWorld(icd, name, table, markers, scopes, form, nargs, kwnames)
+            parsed = w.parse()
+            if not parsed:
+                continue
+            if sc is None or any(d in sc for d in dec_scopes):      # `scope not in legal_scopes`: membership for a tuple, substring test for a str
+                acc['decorator'].append(row)
+            if w.with_accepted(parsed):
+                acc['with'].append(row)
+        out[name] = acc
+    return out
+
+
+# ---------------------------------------------------------------------------------------- shadow side
+class _Tok:
+    def __init__(self, name):
+        self.name = name
+
+    def __repr__(self):
+        return self.name
+
+
+FUNC, ARG_LIT, ARG_ANY, UNKV = _Tok('the decorated object'), _Tok('the (literal) directive argument'), _Tok('the directive argument'), _Tok('an unknown value')
+
+
+class Const:
+    def __init__(self, v):
+        self.v = v
+
+    def __repr__(self):
+        return repr(self.v)
+
+
+class TupleV:
+    def __init__(self, items):
+        self.items = list(items)
+
+    def __repr__(self):
+        return '(%s)' % ', '.join(map(repr, self.items))
+
+
+class KwDict:
+    def __init__(self, d):
+        self.d = dict(d)
+
+    def __repr__(self):
+        return '{%s}' % ', '.join('%s=...' % k for k in self.d)
+
+
+class Inst:
+    def __init__(self, cls, attrs=None):
+        self.cls, self.attrs = cls, dict(attrs or {})
+
+    def __repr__(self):
+        return 'an instance of %s' % self.cls.node.name
+
+
+class Bound:
+    def __init__(self, func, selfv):
+        self.func, self.selfv = func, selfv
+
+    def __repr__(self):
+        return 'the bound method %s of %r' % (getattr(self.func.node, 'name', '<lambda>'), self.selfv)
+
+
+class Raised:
+    def __init__(self, reason):
+        self.reason = reason
+
+    def __repr__(self):
+        return 'raises ' + self.reason
+
+
+class _BindError(Exception):
+    pass
+
+
+def bind_arguments(a, args, kwargs, fname):
+    """Python's argument binding on an ast.arguments -> env (values; defaults as ('default', node)); raises _BindError with the TypeError text."""
+    pos = [p.arg for p in a.posonlyargs + a.args]
+    nposonly = len(a.posonlyargs)
+    env = {}
+    if len(args) > len(pos) and a.vararg is None:
+        raise _BindError('TypeError: %s() takes %s%d positional argument%s but %d %s given' % (
+            fname, 'from %d to ' % (len(pos) - len(a.defaults)) if a.defaults else '', len(pos), '' if len(pos) == 1 else 's', len(args), 'was' if len(args) == 1 else 'were'))
+    for p, v in zip(pos, args):
+        env[p] = v
+    if a.vararg is not None:
+        env[a.vararg.arg] = TupleV(args[len(pos):])
+    extra = {}
+    kwonly = [p.arg for p in a.kwonlyargs]
+    for k, v in kwargs.items():
+        if k in env and (k in pos[nposonly:]):
+            raise _BindError('TypeError: %s() got multiple values for argument %r' % (fname, k))
+        if k in pos[nposonly:] or k in kwonly:
+            env[k] = v
+        elif a.kwarg is not None:
+            extra[k] = v
+        else:
+            raise _BindError('TypeError: %s() got an unexpected keyword argument %r' % (fname, k))
+    defaults = dict(zip(pos[len(pos) - len(a.defaults):], a.defaults))
+    for p in pos:
+        if p not in env:
+            if p in defaults:
+                env[p] = ('default', defaults[p])
+            else:
+                raise _BindError('TypeError: %s() missing 1 required positional argument: %r' % (fname, p))
+    for p, d in zip(kwonly, a.kw_defaults):
+        if p not in env:
+            if d is None:
+                raise _BindError('TypeError: %s() missing 1 required keyword-only argument: %r' % (fname, p))
+            env[p] = ('default', d)
+    if a.kwarg is not None:
+        env[a.kwarg.arg] = KwDict(extra)
+    return env
+
+
+class ShEval:
+    """Abstract evaluation of calls on the objects of the shadow namespace.  call() -> list of (kind, payload, definite): kind 'ok' (payload = value),
+    'raise' (payload = reason) or 'unknown'; `definite` is False when the path went through a test whose outcome is not known."""
+    MAXDEPTH = 7
+
+    def __init__(self, model):
+        self.m = model
+        self.depth = 0
+
+    # ------------------------------------------------------------ objects
+    def as_value(self, o):
+        from .pC38 import Obj, ClassObj
+        if isinstance(o, Obj) and o.kind == 'instance' and o.cls is not None and not isinstance(o, ClassObj):
+            if id(o) not in self.__dict__.setdefault('_insts', {}):
+                self._insts[id(o)] = Inst(o.cls, {k: self.as_value(v) for k, v in o.extra.items()})
+            return self._insts[id(o)]
+        if isinstance(o, Obj) and o.kind == 'const' and isinstance(o.node, ast.Constant):
+            return Const(o.node.value)
+        if isinstance(o, Obj) and o.kind in ('unknown', 'any', 'module'):
+            return UNKV
+        return o
+
+    def is_static(self, fnode):
+        return isinstance(fnode, ast.FunctionDef) and any(_callee_name(d) in ('staticmethod', 'classmethod') for d in fnode.decorator_list)
+
+    def getattr(self, base, attr):
+        from .pC38 import Obj, ClassObj, MAYBE
+        base = self.as_value(base)
+        if isinstance(base, Inst):
+            if attr in base.attrs:
+                return base.attrs[attr]
+            members, wild, unk = self.m._class_members(base.cls)
+            if attr in members:
+                v = members[attr]
+                if isinstance(v, Obj) and v.kind == 'func' and not self.is_static(v.node):
+                    return Bound(v, base)
+                return self.as_value(v)
+            if wild or unk or attr in self.m._self_attrs(base.cls):
+                return UNKV
+            return Raised("AttributeError: '%s' object has no attribute %r" % (base.cls.node.name, attr))
+        if isinstance(base, ClassObj):
+            members, wild, unk = self.m._class_members(base)
+            if attr in members:
+                return self.as_value(members[attr])
+            return UNKV if unk else Raised("AttributeError: type object '%s' has no attribute %r" % (base.node.name, attr))
+        if isinstance(base, Obj) and base.kind == 'func':
+            if attr in base.extra:
+                return self.as_value(base.extra[attr])
+            return Raised("AttributeError: 'function' object has no attribute %r" % attr)
+        if isinstance(base, Raised):
+            return base
+        if isinstance(base, Bound):
+            return Raised("AttributeError: 'method' object has no attribute %r" % attr) if attr in ('__enter__', '__exit__') else UNKV
+        if base is ARG_LIT and attr in ('__enter__', '__exit__', '__call__'):
+            return Raised("AttributeError: a literal has no attribute %r" % attr)
+        if isinstance(base, Const):
+            return UNKV if hasattr(base.v, attr) else Raised("AttributeError: '%s' object has no attribute %r" % (type(base.v).__name__, attr))
+        return UNKV
+
+    def has_attr(self, v, attr):
+        """True / False / None"""
+        x = self.getattr(v, attr)
+        if isinstance(x, Raised):
+            return False
+        if x is UNKV:
+            return None
+        return True
+
+    # ------------------------------------------------------------ calls
+    def call(self, callee, args, kwargs):
+        from .pC38 import Obj, ClassObj
+        callee = self.as_value(callee)
+        if self.depth >= self.MAXDEPTH:
+            return [('unknown', 'call depth', False)]
+        self.depth += 1
+        try:
+            if isinstance(callee, Raised):
+                return [('raise', callee.reason, True)]
+            if callee is ARG_LIT:
+                return [('raise', 'TypeError: the directive argument (a compile-time literal) is not callable', True)]
+            if isinstance(callee, Const):
+                return [('raise', "TypeError: '%s' object is not callable" % type(callee.v).__name__, True)]
+            if isinstance(callee, (TupleV, KwDict)):
+                return [('raise', 'TypeError: object is not callable', True)]
+            if isinstance(callee, Bound):
+                return self.call_function(callee.func.node, [callee.selfv] + list(args), kwargs)
+            if isinstance(callee, ClassObj):
+                return self.instantiate(callee, args, kwargs)
+            if isinstance(callee, Obj) and callee.kind == 'func':
+                return self.call_function(callee.node, list(args), kwargs)
+            if isinstance(callee, Inst):
+                c = self.getattr(callee, '__call__')
+                if isinstance(c, Raised):
+                    return [('raise', "TypeError: '%s' object is not callable" % callee.cls.node.name, True)]
+                if c is UNKV:
+                    return [('unknown', '__call__ of %r' % callee, False)]
+                return self.call(c, args, kwargs)
+            return [('unknown', 'call of %r' % (callee,), False)]
+        finally:
+            self.depth -= 1
+
+    def instantiate(self, c, args, kwargs):
+        from .pC38 import Obj
+        members, wild, unk = self.m._class_members(c)
+        if '__new__' in members or unk:
+            return [('unknown', 'construction of %s' % c.node.name, False)]
+        inst = Inst(c)
+        init = members.get('__init__')
+        if init is None:
+            if args or kwargs:
+                return [('raise', 'TypeError: %s() takes no arguments' % c.node.name, True)]
+            return [('ok', inst, True)]
+        if not (isinstance(init, Obj) and init.kind == 'func'):
+            return [('unknown', '__init__ of %s' % c.node.name, False)]
+        out = []
+        for kind, payload, definite in self.call_function(init.node, [inst] + list(args), kwargs):
+            if kind == 'raise':
+                out.append((kind, payload, definite))
+            elif kind == 'unknown':
+                out.append(('ok', inst, False))
+            else:
+                out.append(('ok', inst, definite))
+        return out
+
+    def call_function(self, fnode, args, kwargs):
+        name = getattr(fnode, 'name', '<lambda>')
+        if isinstance(fnode, ast.FunctionDef) and any(_callee_name(d) not in ('staticmethod', 'overload') for d in fnode.decorator_list):
+            return [('unknown', 'decorated function %s' % name, False)]
+        if not isinstance(fnode, (ast.FunctionDef, ast.Lambda)):
+            return [('unknown', 'callable %s' % name, False)]
+        try:
+            env = bind_arguments(fnode.args, args, kwargs, name)
+        except _BindError as e:
+            return [('raise', str(e), True)]
+        for k, v in list(env.items()):
+            if isinstance(v, tuple) and v and v[0] == 'default':
+                vals = self.ev(v[1], {})
+                env[k] = vals[0] if len(vals) == 1 else UNKV
+        if isinstance(fnode, ast.Lambda):
+            return [(('raise', v.reason, True) if isinstance(v, Raised) else ('ok', v, True)) for v in self.ev(fnode.body, env)]
+        return self.block(fnode.body, env, True)
+
+    # ------------------------------------------------------------ statements
+    def block(self, stmts, env, definite):
+        """-> outcomes of the paths that leave the function in this block + [('next', env, definite)] continuation entries"""
+        res = self._block(stmts, env, definite)
+        out = []
+        for kind, payload, d in res:
+            if kind == 'next':
+                out.append(('ok', Const(None), d))
+            else:
+                out.append((kind, payload, d))
+        return out
+
+    def _block(self, stmts, env, definite):
+        cur = [(env, definite)]
+        done = []
+        for s in stmts:
+            nxt = []
+            for e, d in cur:
+                for kind, payload, d2 in self.stmt(s, e, d):
+                    if kind == 'next':
+                        nxt.append((payload, d2))
+                    else:
+                        done.append((kind, payload, d2))
+            cur = nxt
+            if len(cur) + len(done) > 200:
+                return done + [('unknown', 'too many paths', False)]
+        return done + [('next', e, d) for e, d in cur]
+
+    def stmt(self, s, env, definite):
+        if isinstance(s, ast.Return):
+            if s.value is None:
+                return [('ok', Const(None), definite)]
+            return [(('raise', v.reason, definite) if isinstance(v, Raised) else ('ok', v, definite)) for v in self.ev(s.value, env)]
+        if isinstance(s, ast.If):
+            t = self.truth(s.test, env)
+            if t is None:
+                return self._block(s.body, dict(env), False) + self._block(s.orelse, dict(env), False)
+            return self._block(s.body if t else s.orelse, env, definite)
+        if isinstance(s, (ast.Assign, ast.AnnAssign)):
+            if s.value is None:
+                return [('next', env, definite)]
+            targets = s.targets if isinstance(s, ast.Assign) else [s.target]
+            out = []
+            for v in self.ev(s.value, env):
+                if isinstance(v, Raised):
+                    out.append(('raise', v.reason, definite))
+                    continue
+                e2 = dict(env) if len(out) else env
+                for t in targets:
+                    self.store(t, v, e2)
+                out.append(('next', e2, definite))
+            return out
+        if isinstance(s, ast.Expr):
+            if isinstance(s.value, ast.Constant):
+                return [('next', env, definite)]
+            vals = self.ev(s.value, env)
+            bad = [v for v in vals if isinstance(v, Raised)]
+            if bad and len(bad) == len(vals):
+                return [('raise', bad[0].reason, definite)]
+            return [('next', env, definite)]
+        if isinstance(s, ast.Assert):
+            t = self.truth(s.test, env)
+            if t is False:
+                return [('raise', 'AssertionError (`assert %s`)' % node_src(s.test, 40), definite)]
+            return [('next', env, definite and t is True)] if t is not None else [('next', env, definite)]
+        if isinstance(s, ast.Raise):
+            return [('raise', node_src(s, 60), definite)]
+        if isinstance(s, (ast.Pass, ast.Global, ast.Nonlocal)):
+            return [('next', env, definite)]
+        if isinstance(s, (ast.Import, ast.ImportFrom)):
+            for a in s.names:
+                env[(a.asname or a.name).split('.')[0]] = UNKV
+            return [('next', env, definite)]
+        if isinstance(s, (ast.FunctionDef, ast.ClassDef)):
+            env[s.name] = UNKV
+            return [('next', env, definite)]
+        return [('unknown', 'statement `%s`' % node_src(s, 40), False)]
+
+    def store(self, t, v, env):
+        if isinstance(t, ast.Name):
+            env[t.id] = v
+        elif isinstance(t, ast.Attribute):
+            b = self.ev(t.value, env)
+            if len(b) == 1 and isinstance(b[0], Inst):
+                b[0].attrs[t.attr] = v
+        elif isinstance(t, (ast.Tuple, ast.List)):
+            items = v.items if isinstance(v, TupleV) and len(v.items) == len(t.elts) else [UNKV] * len(t.elts)
+            for e, x in zip(t.elts, items):
+                self.store(e.value if isinstance(e, ast.Starred) else e, x, env)
+
+    # ------------------------------------------------------------ expressions
+    def ev(self, n, env):
+        """-> list of possible values (Raised marks a raising evaluation)"""
+        from .pC38 import Obj
+        if isinstance(n, ast.Constant):
+            return [Const(n.value)]
+        if isinstance(n, ast.Name):
+            if n.id in env:
+                return [env[n.id]]
+            if n.id in self.m.ns:
+                return [self.as_value(self.m.ns[n.id])]
+            return [UNKV]
+        if isinstance(n, ast.Lambda):
+            o = Obj('func', n, line=n.lineno)
+            o.extra['__closure__'] = TupleV([v for v in env.values()])      # a lambda created inside a call may capture the local values
+            return [o]
+        if isinstance(n, ast.Attribute):
+            return [self.getattr(b, n.attr) for b in self.ev(n.value, env)]
+        if isinstance(n, ast.Tuple):
+            parts = [self.ev(e, env) for e in n.elts]
+            if all(len(p) == 1 for p in parts):
+                return [TupleV([p[0] for p in parts])]
+            return [UNKV]
+        if isinstance(n, ast.Subscript):
+            b, i = self.ev(n.value, env), self.ev(n.slice, env)
+            if len(b) == 1 and len(i) == 1 and isinstance(b[0], TupleV) and isinstance(i[0], Const) and isinstance(i[0].v, int) and -len(b[0].items) <= i[0].v < len(b[0].items):
+                return [b[0].items[i[0].v]]
+            return [UNKV]
+        if isinstance(n, ast.IfExp):
+            t = self.truth(n.test, env)
+            if t is None:
+                return self.ev(n.body, env) + self.ev(n.orelse, env)
+            return self.ev(n.body if t else n.orelse, env)
+        if isinstance(n, (ast.Compare, ast.UnaryOp)) or isinstance(n, ast.BoolOp):
+            t = self.truth(n, env)
+            return [UNKV if t is None else Const(t)]
+        if isinstance(n, ast.Call):
+            return self.ev_call(n, env)
+        return [UNKV]
+
+    def ev_call(self, n, env):
+        f = n.func
+        if isinstance(f, ast.Name) and f.id not in env and f.id not in self.m.ns:
+            if f.id in ('callable', 'isinstance', 'bool'):
+                t = self.truth(n, env)
+                return [UNKV if t is None else Const(t)]
+            if f.id == 'len' and len(n.args) == 1:
+                v = self.ev(n.args[0], env)
+                if len(v) == 1 and isinstance(v[0], TupleV):
+                    return [Const(len(v[0].items))]
+                if len(v) == 1 and isinstance(v[0], KwDict):
+                    return [Const(len(v[0].d))]
+                return [UNKV]
+            return [UNKV]
+        if isinstance(f, ast.Attribute) and f.attr == 'pop' and n.args:
+            b = self.ev(f.value, env)
+            k = self.ev(n.args[0], env)
+            if len(b) == 1 and isinstance(b[0], KwDict) and len(k) == 1 and isinstance(k[0], Const):
+                if k[0].v in b[0].d:
+                    return [b[0].d.pop(k[0].v)]
+                if len(n.args) > 1:
+                    return self.ev(n.args[1], env)
+                return [Raised('KeyError: %r' % (k[0].v,))]
+        args, kwargs = [], {}
+        for a in n.args:
+            if isinstance(a, ast.Starred):
+                v = self.ev(a.value, env)
+                if len(v) == 1 and isinstance(v[0], TupleV):
+                    args.extend(v[0].items)
+                else:
+                    return [UNKV]
+            else:
+                v = self.ev(a, env)
+                args.append(v[0] if len(v) == 1 else UNKV)
+        for k in n.keywords:
+            v = self.ev(k.value, env)
+            if k.arg is None:
+                if len(v) == 1 and isinstance(v[0], KwDict):
+                    kwargs.update(v[0].d)
+                else:
+                    return [UNKV]
+            else:
+                kwargs[k.arg] = v[0] if len(v) == 1 else UNKV
+        if any(isinstance(a, Raised) for a in args + list(kwargs.values())):
+            return [[a for a in args + list(kwargs.values()) if isinstance(a, Raised)][0]]
+        out = []
+        for callee in self.ev(f, env):
+            for kind, payload, definite in self.call(callee, args, kwargs):
+                if kind == 'ok':
+                    out.append(payload)
+                elif kind == 'raise':
+                    out.append(Raised(payload) if definite else UNKV)
+                else:
+                    out.append(UNKV)
+        return out or [UNKV]
+
+    def truth_of(self, v):
+        from .pC38 import Obj, ClassObj
+        if isinstance(v, Const):
+            return bool(v.v)
+        if isinstance(v, TupleV):
+            return len(v.items) > 0
+        if isinstance(v, KwDict):
+            return len(v.d) > 0
+        if v is FUNC or isinstance(v, (ClassObj, Bound)) or (isinstance(v, Obj) and v.kind == 'func'):
+            return True
+        if isinstance(v, Inst):
+            members, wild, unk = self.m._class_members(v.cls)
+            return None if ('__bool__' in members or '__len__' in members or wild or unk) else True
+        return None
+
+    def truth(self, n, env):
+        from .pC38 import Obj, ClassObj
+        if isinstance(n, ast.UnaryOp) and isinstance(n.op, ast.Not):
+            t = self.truth(n.operand, env)
+            return None if t is None else (not t)
+        if isinstance(n, ast.BoolOp):
+            ts = [self.truth(v, env) for v in n.values]
+            if isinstance(n.op, ast.And):
+                return False if any(t is False for t in ts) else True if all(t is True for t in ts) else None
+            return True if any(t is True for t in ts) else False if all(t is False for t in ts) else None
+        if isinstance(n, ast.Compare):
+            vals = [self.ev(x, env) for x in [n.left] + n.comparators]
+            if any(len(v) != 1 for v in vals):
+                return None
+            vals = [v[0] for v in vals]
+            res = True
+            for op, a, b in zip(n.ops, vals, vals[1:]):
+                if isinstance(op, (ast.Is, ast.IsNot)):
+                    none = [isinstance(x, Const) and x.v is None for x in (a, b)]
+                    if any(none):
+                        other = b if none[0] else a
+                        if all(none):
+                            same = True
+                        elif isinstance(other, Const) or other is FUNC or isinstance(other, (Inst, TupleV, KwDict, Bound, Obj)):
+                            same = False
+                        else:
+                            return None
+                    elif a is b and a is not UNKV:
+                        same = True
+                    else:
+                        return None
+                    ok = same if isinstance(op, ast.Is) else not same
+                elif isinstance(a, Const) and isinstance(b, Const):
+                    try:
+                        ok = {ast.Eq: a.v == b.v, ast.NotEq: a.v != b.v, ast.Lt: a.v < b.v, ast.LtE: a.v <= b.v, ast.Gt: a.v > b.v, ast.GtE: a.v >= b.v}.get(type(op))
+                    except TypeError:
+                        return None
+                    if ok is None:
+                        return None
+                else:
+                    return None
+                if not ok:
+                    res = False
+            return res
+        if isinstance(n, ast.Call) and isinstance(n.func, ast.Name) and n.func.id not in env and n.func.id not in self.m.ns:
+            if n.func.id == 'callable' and len(n.args) == 1:
+                v = self.ev(n.args[0], env)
+                if len(v) != 1:
+                    return None
+                v = v[0]
+                if v is FUNC or isinstance(v, (ClassObj, Bound)) or (isinstance(v, Obj) and v.kind == 'func'):
+                    return True
+                if isinstance(v, Inst):
+                    return self.has_attr(v, '__call__')
+                if isinstance(v, (Const, TupleV, KwDict)) or v is ARG_LIT:
+                    return False
+                return None
+            if n.func.id == 'isinstance' and len(n.args) == 2:
+                v = self.ev(n.args[0], env)
+                names = _class_names(n.args[1])
+                if len(v) != 1:
+                    return None
+                v = v[0]
+                builtin = {'str': str, 'int': int, 'bool': bool, 'float': float, 'tuple': tuple, 'dict': dict, 'list': list, 'bytes': bytes}
+                if all(x in builtin for x in names):
+                    if isinstance(v, Const):
+                        return isinstance(v.v, tuple(builtin[x] for x in names))
+                    if v is FUNC or isinstance(v, (Inst, Bound, ClassObj)) or (isinstance(v, Obj) and v.kind == 'func'):
+                        return False          # a function / class / instance of a shadow class is no str, int, ...
+                return None
+            if n.func.id == 'bool' and len(n.args) == 1:
+                return self.truth(n.args[0], env)
+        v = self.ev(n, env)
+        return self.truth_of(v[0]) if len(v) == 1 else None
+
+
+def describe(v):
+    from .pC38 import Obj, ClassObj
+    if isinstance(v, ClassObj):
+        return 'the class %s' % v.node.name
+    if isinstance(v, Obj) and v.kind == 'func':
+        return 'the function %s' % getattr(v.node, 'name', '<lambda>')
+    return repr(v)
+
+
+def holds_func(v, depth=0):
+    """True when the abstract value keeps a reference to the decorated object (instance attribute, captured local, tuple element)."""
+    from .pC38 import Obj
+    if v is FUNC:
+        return True
+    if depth > 3:
+        return False
+    if isinstance(v, Inst):
+        return any(holds_func(x, depth + 1) for x in v.attrs.values())
+    if isinstance(v, TupleV):
+        return any(holds_func(x, depth + 1) for x in v.items)
+    if isinstance(v, KwDict):
+        return any(holds_func(x, depth + 1) for x in v.d.values())
+    if isinstance(v, Bound):
+        return holds_func(v.selfv, depth + 1)
+    if isinstance(v, Obj) and v.kind == 'func' and '__closure__' in v.extra:
+        return holds_func(v.extra['__closure__'], depth + 1)
+    return False
+
+
+def shape_outcome(ev, dobj, use, row, kind):
+    """-> ('ok' | 'fail' | 'unknown', reason)"""
+    label, form, nargs, kwnames = row
+    arg = ARG_LIT if kind in ('bool', 'int', 'str', 'list', 'callable') else ARG_ANY
+    if form == 'bare':
+        firsts = [('ok', dobj, True)]
+    else:
+        firsts = ev.call(dobj, [arg] * nargs, {k: arg for k in kwnames})
+    results = []
+    for kind1, v, d1 in firsts:
+        if kind1 == 'raise':
+            results.append(('fail' if d1 else 'unknown', 'cython.%s%s raises %s' % ('%s', label[4:] if form == 'call' else '', v)))
+            continue
+        if kind1 == 'unknown':
+            results.append(('unknown', v))
+            continue
+        if use == 'with':
+            has = [ev.has_attr(v, a) for a in ('__enter__', '__exit__')]
+            if False in has:
+                results.append(('fail' if d1 else 'unknown', '%s is %s, which has no %s' % ('cython.%s' + (label[4:] if form == 'call' else ''), describe(ev.as_value(v)),
+                                                                                             ' / '.join(a for a, h in zip(('__enter__', '__exit__'), has) if h is False))))
+            elif None in has:
+                results.append(('unknown', 'attributes of %s' % describe(v)))
+            else:
+                results.append(('ok', ''))
+            continue
+        for kind2, v2, d2 in ev.call(v, [FUNC], {}):
+            d = d1 and d2
+            spelled = '@cython.%s' + (label[4:] if form == 'call' else '')
+            if kind2 == 'raise':
+                results.append(('fail' if d else 'unknown', '%s applied to a function raises %s' % (spelled, v2)))
+            elif kind2 == 'unknown':
+                results.append(('unknown', v2))
+            elif v2 is FUNC:
+                results.append(('ok', ''))
+            elif v2 is UNKV or v2 is ARG_ANY:
+                results.append(('unknown', 'returns %r' % (v2,)))
+            elif holds_func(v2):
+                results.append(('unknown', 'returns %s, which holds the decorated object (a forwarding wrapper cannot be excluded)' % describe(v2)))
+            else:
+                results.append(('fail' if d else 'unknown', '%s replaces the decorated function / class by %s' % (spelled, describe(v2))))
+    fails = [r for r in results if r[0] == 'fail']
+    if fails:
+        return 'fail', fails[0][1]
+    unk = [r for r in results if r[0] == 'unknown']
+    if unk or not results:
+        return 'unknown', unk[0][1] if unk else 'no result'
+    return 'ok', ''
+
+
+def shape_table(ctx):
+    """-> (rows [(directive, kind, use, shape label, outcome, reason, explicit with-scope?)], skipped infos)"""
+    from .pC38 import ShadowModel, module_literal_dict, class_def, MAYBE
+    def build():
+        table, markers = directive_kind_table(ctx)
+        opt = ctx.parse(OPTIONS)
+        _, dscopes = module_literal_dict(opt, 'directive_scopes', OPTIONS)
+        scopes = {}
+        for k, v in dscopes.items():
+            try:
+                scopes[k] = ast.literal_eval(v)
+            except Exception:
+                raise AnalysisError('Options.directive_scopes[%r] is not a literal' % k)
+        icd = class_def(ctx.parse(PTT), 'InterpretCompilerDirectives', PTT)
+        sh = ShadowModel(ctx.parse(SHADOW), SHADOW)
+        ev = ShEval(sh)
+        names, infos = [], []
+        for name in sorted(table):
+            sc = scopes.get(name)
+            if sc is not None and not isinstance(sc, str) and not (set(sc) - {'module'}):
+                continue
+            if table[name] == 'nonetype':
+                infos.append('%s: its directive type is NoneType (default None, no entry in directive_types): no spelling is parsed successfully' % name)
+                continue
+            st, detail = sh.lookup(name)
+            if st is not True:
+                infos.append('%s: not resolvable in Shadow.py (%s; existence is decided by C38-DIR)' % (name, detail or st))
+                continue
+            names.append(name)
+        acc = accepted_forms(ctx, icd, table, markers, scopes, names)
+        rows = []
+        for name in names:
+            parts = name.split('.')
+            obj = ev.as_value(sh.ns[parts[0]]) if parts[0] in sh.ns else UNKV
+            for p in parts[1:]:
+                obj = ev.getattr(obj, p)
+            sc = scopes.get(name)
+            explicit_with = sc is not None and ('with statement' in sc)
+            for use in ('decorator', 'with'):
+                for row in acc[name][use]:
+                    outcome, reason = shape_outcome(ev, obj, use, row, table[name])
+                    rows.append((name, table[name], use, row[0], outcome, reason % name if '%s' in reason else reason, explicit_with))
+        return rows, infos
+    return ctx.memo('C38-shape-table', build)
+
+
+def cast_keyword_outcome(ev, sh, kw):
+    """Shadow.cast(T, v, <kw>=x): ('ok' | 'fail' | 'unknown', reason)"""
+    o = sh.ns.get('cast')
+    if o is None:
+        return 'unknown', 'Shadow.cast missing'
+    res = ev.call(o, [ARG_ANY, ARG_ANY], {kw: ARG_ANY})
+    bad = [p for k, p, d in res if k == 'raise' and d]
+    if bad:
+        return 'fail', bad[0]
+    return ('ok', '') if any(k == 'ok' for k, p, d in res) else ('unknown', 'not evaluated')
+
+
+def rule_shape(ctx):
+    from .pC38 import ShadowModel, class_def
+    r = Rule('C38-SHAPE', 'each directive spelling the compiler accepts as decorator (bare `@cython.D` / `@cython.D(args)`) binds to the signature of the shadow object and gives the '
+             'decorated object back; directives whose scope names "with statement" give a context manager; cython.cast accepts the keywords the compiler accepts', floor=70)
+    rows, infos = shape_table(ctx)
+    for i in infos:
+        r.info(i)
+    groups = {}
+    for name, kind, use, label, outcome, reason, explicit_with in rows:
+        if use == 'with' and not explicit_with:
+            continue                   # with-use of directives without an explicit 'with statement' scope: see rule_shape_all_forms (pending finding)
+        groups.setdefault((name, kind, use), []).append((label, outcome, reason))
+    sh = ShadowModel(ctx.parse(SHADOW), SHADOW)
+    for (name, kind, use), lst in sorted(groups.items()):
+        labels = [l for l, o, x in lst]
+        line = sh.line_of(name.split('.')[0])
+        what = 'decorator' if use == 'decorator' else 'with-item'
+        if 'bare' in labels and len(labels) > 1:
+            # the compiler accepts the bare and the call spelling; Shadow.py supports one of them per directive on today's tree (see rule_shape_all_forms):
+            # the registered obligation is that at least one accepted spelling works
+            key = 'shape:%s:%s:any-form' % (name, use)
+            r.inst(key, sample='%s: %s' % (key, ', '.join('%s=%s' % (l, o) for l, o, x in lst)))
+            if all(o == 'fail' for l, o, x in lst):
+                r.violate(key, SHADOW, line, 'the compiler accepts cython.%s as %s in the spellings %s (directive type %s), none of them works on the shadow object: %s. '
+                          'A pure-mode module using the directive compiles and fails when run uncompiled'
+                          % (name, what, ', '.join(labels), kind, '; '.join('%s: %s' % (l, x) for l, o, x in lst[:3])))
+            continue
+        for label, outcome, reason in lst:
+            key = 'shape:%s:%s:%s' % (name, use, label)
+            r.inst(key, sample='%s: %s' % (key, outcome))
+            if outcome == 'fail':
+                r.violate(key, SHADOW, line, 'the compiler accepts cython.%s as %s only in the spelling%s %s (directive type %s), and on the shadow object %s. '
+                          'A pure-mode module using it compiles and fails (or loses the decorated object) when run uncompiled'
+                          % (name, what, '' if len(labels) == 1 else 's', ', '.join(labels), kind, reason))
+            elif outcome == 'unknown':
+                r.info('%s: not decided (%s)' % (key, reason))
+    # ---- (e) keywords of cast
+    tbm = class_def(ctx.parse(PTT), 'TransformBuiltinMethods', PTT)
+    ev = ShEval(sh)
+    for kw in sorted(cast_keywords(tbm)):
+        key = 'shape:cast:call(T, v, %s=ARG)' % kw
+        outcome, reason = cast_keyword_outcome(ev, sh, kw)
+        r.inst(key, sample='%s: %s' % (key, outcome))
+        if outcome == 'fail':
+            r.violate(key, SHADOW, sh.line_of('cast'), 'TransformBuiltinMethods.visit_GeneralCallNode accepts cython.cast(T, v, %s=...) but Shadow.cast(T, v, %s=x) raises %s: '
+                      'the call compiles and fails when run uncompiled' % (kw, kw, reason))
+        elif outcome == 'unknown':
+            r.info('%s: not decided (%s)' % (key, reason))
+    # ---- positive control
+    pm = ShadowModel(ast.parse(
+        "class M:\n    def __call__(self, x):\n        return self\n    def __enter__(self): pass\n"
+        "cfunc = M()\nexceptval = lambda _, check=True: M()\n"
+        "def locals(*arg_types):\n    return lambda f: f\n"
+        "def ok(**kw):\n    return lambda f: f\n"
+        "def cast(t, *args, **kwargs):\n    assert not kwargs\n    return args[0]\n"
+        "def cast2(t, *args, **kwargs):\n    kwargs.pop('typecheck', None)\n    assert not kwargs\n    return args[0]\n"))
+    pe = ShEval(pm)
+    got = [shape_outcome(pe, pm.ns['cfunc'], 'decorator', ('bare', 'bare', 0, ()), None)[0],
+           shape_outcome(pe, pm.ns['cfunc'], 'with', ('bare', 'bare', 0, ()), None)[0],
+           shape_outcome(pe, pm.ns['exceptval'], 'decorator', ('call(check=ARG)', 'call', 0, ('check',)), 'type')[0],
+           shape_outcome(pe, pm.ns['locals'], 'decorator', ('call(x=ARG)', 'call', 0, ('x',)), 'dict')[0],
+           shape_outcome(pe, pm.ns['ok'], 'decorator', ('call(x=ARG)', 'call', 0, ('x',)), 'dict')[0],
+           pe.call(pm.ns['cast'], [ARG_ANY, ARG_ANY], {'typecheck': ARG_ANY})[0][0], pe.call(pm.ns['cast2'], [ARG_ANY, ARG_ANY], {'typecheck': ARG_ANY})[0][0]]
+    r.positive_control(got == ['fail', 'fail', 'fail', 'fail', 'ok', 'raise', 'ok'], 'manager whose __call__ returns self / lacks __exit__, factory that cannot bind the accepted arguments')
+    return r
+
+
+def rule_shape_all_forms(ctx):        # pending finding: NOT registered (reports on the unmodified tree)
+    """The stronger obligation: EVERY spelling the compiler accepts works on the shadow object -> rows (directive, use, spelling, reason) that fail."""
+    rows, infos = shape_table(ctx)
+    return [(name, kind, use, label, reason) for name, kind, use, label, outcome, reason, explicit_with in rows if outcome == 'fail']
